@@ -2,22 +2,37 @@ import Aplang.Proofs.FsLemmas
 /-!
 # C19 — the FS module against a simple file-system model
 
-The model of the file system (`Aplang.Fs`) is an association list from component paths to nodes. The
-theorems below say that each operation reads and changes exactly the named entry (frame theorems),
-when it succeeds, what it leaves behind, that a failing operation leaves the tree as it was (with the
-one exception of `DIRECTORY_REMOVE_ALL(".")`, which the Rust `remove_dir_all` empties before it fails),
-and that every FS native reports failure through its return value.
+The model of the file system (`Aplang.Fs`) is an association list from component paths to nodes. A
+path string names a component path through `Fs.resolve`, which walks the components as the Linux
+kernel does: `..` goes to the parent and needs everything before it to be an existing directory.
+
+The theorems below say that each operation reads and changes exactly the entry the path string
+resolves to (frame theorems), when it succeeds, what it leaves behind, that a failing operation leaves
+the tree as it was (with two exceptions: `DIRECTORY_REMOVE_ALL(".")`, which the Rust `remove_dir_all`
+empties before it fails, and `DIRECTORY_CREATE_ALL` on a path with `..`, which keeps what it made before
+it met a file), and that every FS native reports failure through its return value.
+
+`DIRECTORY_CREATE_ALL` and `DIRECTORY_REMOVE_ALL` are the two operations that are more than one system
+call, so that the path string is looked at in a tree that changes under it: the first makes the
+directories a later `..` is taken from; the second resolves the string again after it has removed what
+is below the directory (`dirRemoveAll_at_resolved`).
+
+Layout: every operation is `match resolve t s with | none => failure | some p => opAt t s p`. The
+theorems are proved for `opAt` at an arbitrary path `p` (section "at a resolved path"), and then stated
+for the operations on path strings twice: in general (about the path `resolve` gives; names ending in
+`_resolve` or statements without any hypothesis on the string), and — under `noDotDot s` — in the form
+they had before `..` was in the model, about `components s`.
+Section "`..`" has the theorems special to `..`.
 
 The tie between `Aplang.Fs` and the real `std::fs` is checked by differential runs, not here.
 -/
 namespace Aplang.Fs
 
-/-! ## frame theorems: only the named path changes -/
+/-! ## at a resolved path: frame theorems -/
 
-theorem fileCreate_frame (t : Tree) (s : Str) (q : Path) (hq : q ≠ components s) :
-    find? (fileCreate t s).1 q = find? t q := by
-  unfold fileCreate
-  simp only []
+theorem fileCreateAt_frame (t : Tree) (s : Str) (p q : Path) (hq : q ≠ p) :
+    find? (fileCreateAt t s p).1 q = find? t q := by
+  unfold fileCreateAt
   split
   · rfl
   · simp only [find?_put, hq, ↓reduceIte]
@@ -25,10 +40,9 @@ theorem fileCreate_frame (t : Tree) (s : Str) (q : Path) (hq : q ≠ components 
     · next h => rw [h, find?_nil]
     · rfl
 
-theorem fileRemove_frame (t : Tree) (s : Str) (q : Path) (hq : q ≠ components s) :
-    find? (fileRemove t s).1 q = find? t q := by
-  unfold fileRemove
-  simp only []
+theorem fileRemoveAt_frame (t : Tree) (s : Str) (p q : Path) (hq : q ≠ p) :
+    find? (fileRemoveAt t s p).1 q = find? t q := by
+  unfold fileRemoveAt
   split
   · simp only [find?_erase, hq, ↓reduceIte]
     split
@@ -36,10 +50,9 @@ theorem fileRemove_frame (t : Tree) (s : Str) (q : Path) (hq : q ≠ components 
     · rfl
   · rfl
 
-theorem fileAppend_frame (t : Tree) (s text : Str) (q : Path) (hq : q ≠ components s) :
-    find? (fileAppend t s text).1 q = find? t q := by
-  unfold fileAppend
-  simp only []
+theorem fileAppendAt_frame (t : Tree) (s : Str) (p : Path) (text : Str) (q : Path) (hq : q ≠ p) :
+    find? (fileAppendAt t s p text).1 q = find? t q := by
+  unfold fileAppendAt
   split
   · rfl
   · split
@@ -49,10 +62,9 @@ theorem fileAppend_frame (t : Tree) (s text : Str) (q : Path) (hq : q ≠ compon
       · rfl
     · rfl
 
-theorem fileOverwrite_frame (t : Tree) (s text : Str) (q : Path) (hq : q ≠ components s) :
-    find? (fileOverwrite t s text).1 q = find? t q := by
-  unfold fileOverwrite
-  simp only []
+theorem fileOverwriteAt_frame (t : Tree) (s : Str) (p : Path) (text : Str) (q : Path) (hq : q ≠ p) :
+    find? (fileOverwriteAt t s p text).1 q = find? t q := by
+  unfold fileOverwriteAt
   split
   · rfl
   · split
@@ -62,10 +74,9 @@ theorem fileOverwrite_frame (t : Tree) (s text : Str) (q : Path) (hq : q ≠ com
       · rfl
     · rfl
 
-theorem dirCreate_frame (t : Tree) (s : Str) (q : Path) (hq : q ≠ components s) :
-    find? (dirCreate t s).1 q = find? t q := by
-  unfold dirCreate
-  simp only []
+theorem dirCreateAt_frame (t : Tree) (s : Str) (p q : Path) (hq : q ≠ p) :
+    find? (dirCreateAt t s p).1 q = find? t q := by
+  unfold dirCreateAt
   split
   · rfl
   · simp only [find?_put, hq, ↓reduceIte]
@@ -73,10 +84,9 @@ theorem dirCreate_frame (t : Tree) (s : Str) (q : Path) (hq : q ≠ components s
     · next h => rw [h, find?_nil]
     · rfl
 
-theorem dirRemove_frame (t : Tree) (s : Str) (q : Path) (hq : q ≠ components s) :
-    find? (dirRemove t s).1 q = find? t q := by
-  unfold dirRemove
-  simp only []
+theorem dirRemoveAt_frame (t : Tree) (s : Str) (p q : Path) (hq : q ≠ p) :
+    find? (dirRemoveAt t s p).1 q = find? t q := by
+  unfold dirRemoveAt
   split
   · simp only [find?_erase, hq, ↓reduceIte]
     split
@@ -84,68 +94,62 @@ theorem dirRemove_frame (t : Tree) (s : Str) (q : Path) (hq : q ≠ components s
     · rfl
   · rfl
 
-theorem dirCreateAll_eq (t : Tree) (s : Str) :
-    dirCreateAll t s =
-      if (prefixes (components s)).any (fun q => isFile t q) then (t, false)
-      else ((prefixes (components s)).foldl mkdirStep t, true) := rfl
+theorem isPrefixOf_nil_of_ne {p : Path} (h : p ≠ []) : p.isPrefixOf ([] : Path) = false := by
+  cases p with
+  | nil => exact absurd rfl h
+  | cons a as => rfl
 
-/-- `DIRECTORY_CREATE_ALL`: exactly the prefixes of the named path that did not exist change, and they
-become directories; every other path (and every existing entry) is as before -/
-theorem dirCreateAll_frame (t : Tree) (s : Str) (q : Path) :
-    find? (dirCreateAll t s).1 q =
-      if q ∈ prefixes (components s) ∧ find? t q = none ∧ (dirCreateAll t s).2 = true then some .dir
-      else find? t q := by
-  rw [dirCreateAll_eq]
-  split
-  · simp
-  · simp only [and_true]
-    exact find?_foldl_mkdir _ (fun a ha => ne_nil_of_mem_prefixes ha) t q
+theorem isPrefixOf_self (p : Path) : p.isPrefixOf p = true :=
+  List.isPrefixOf_iff_prefix.2 (List.prefix_refl p)
 
-/-- `DIRECTORY_REMOVE_ALL` on a path other than the root: on success exactly the paths that have the
-named one as a prefix (the directory itself and everything below it) disappear -/
-theorem dirRemoveAll_frame (t : Tree) (s : Str) (q : Path) (hroot : components s ≠ []) :
-    find? (dirRemoveAll t s).1 q =
-      if (dirRemoveAll t s).2 = true ∧ (components s).isPrefixOf q = true then none else find? t q := by
-  unfold dirRemoveAll
-  simp only []
+/-- `DIRECTORY_REMOVE_ALL` that gets as far as removing (a non-empty path string that names a directory):
+every path strictly below the directory disappears, whatever the outcome; every other path, the
+directory itself aside, is as before -/
+theorem dirRemoveAllAt_frame (t : Tree) (s : Str) (p q : Path) (hq : q ≠ p) :
+    find? (dirRemoveAllAt t s p).1 q =
+      if (s ≠ [] ∧ isDir t p = true) ∧ p.isPrefixOf q = true then none else find? t q := by
+  have hnil : q = [] → p.isPrefixOf q = false := by
+    intro h; subst h; exact isPrefixOf_nil_of_ne (Ne.symm hq)
+  unfold dirRemoveAllAt
   split
-  · simp only [find?_eraseUnder, true_and]
+  · next h =>
+    have : ¬ (s ≠ [] ∧ isDir t p = true) := by
+      simp only [Bool.or_eq_true, beq_iff_eq, Bool.not_eq_eq_eq_not, Bool.not_true] at h
+      rintro ⟨h1, h2⟩
+      rcases h with h | h
+      · exact h1 h
+      · rw [h2] at h; cases h
+    simp [this]
+  · next h =>
+    have hg : s ≠ [] ∧ isDir t p = true := by
+      simp only [Bool.or_eq_true, beq_iff_eq, Bool.not_eq_eq_eq_not, Bool.not_true, not_or, Bool.not_eq_false] at h
+      exact h
+    simp only [hg, ne_eq, not_false_eq_true, and_self, true_and]
+    have hbelow : find? (eraseBelow t p) q = if p.isPrefixOf q = true then none else find? t q := by
+      rw [find?_eraseBelow]
+      split
+      · next h0 => rw [hnil h0]; simp [h0, find?_nil]
+      · simp [hq]
+    have hunder : find? (eraseUnder t p) q = if p.isPrefixOf q = true then none else find? t q := by
+      rw [find?_eraseUnder]
+      split
+      · next h0 => rw [hnil h0]; simp [h0, find?_nil]
+      · rfl
     split
-    · next h =>
-      subst h
-      have : (components s).isPrefixOf [] = false := by
-        cases hc : components s with
-        | nil => exact absurd hc hroot
-        | cons a as => rfl
-      simp [this, find?_nil]
-    · rfl
-  · split
-    · next h => simp [hroot] at h
-    · simp
+    · exact hbelow
+    · split
+      · exact hbelow
+      · exact hunder
 
-/-- a path that does not lie under the named directory is untouched by `DIRECTORY_REMOVE_ALL` -/
-theorem dirRemoveAll_frame_outside (t : Tree) (s : Str) (q : Path) (hroot : components s ≠ [])
-    (hq : (components s).isPrefixOf q = false) : find? (dirRemoveAll t s).1 q = find? t q := by
-  rw [dirRemoveAll_frame t s q hroot]; simp [hq]
-
-/-- the exception: `DIRECTORY_REMOVE_ALL` on the sandbox root (`"."`, `"/"`, `"./"` …) empties the tree and
-then reports failure (src: `remove_dir_all(".")` removes the contents, then fails on the root itself) -/
-theorem dirRemoveAll_root (t : Tree) (s : Str) (hs : s ≠ []) (hroot : components s = []) :
-    dirRemoveAll t s = ([], false) := by
-  unfold dirRemoveAll
-  simp [hs, hroot]
-
-/-! ## when an operation succeeds, and what it leaves -/
+/-! ## at a resolved path: when an operation succeeds, and what it leaves -/
 
 theorem find?_none_iff_not_exists (t : Tree) (p : Path) : pathExists t p = false ↔ find? t p = none := by
   unfold pathExists; cases find? t p <;> simp
 
-theorem fileCreate_success_iff (t : Tree) (s : Str) :
-    (fileCreate t s).2 = true ↔
-      s ≠ [] ∧ trailingSlash s = false ∧ components s ≠ [] ∧ find? t (components s) = none ∧
-        isDir t (parent (components s)) = true := by
-  unfold fileCreate
-  simp only []
+theorem fileCreateAt_success_iff (t : Tree) (s : Str) (p : Path) :
+    (fileCreateAt t s p).2 = true ↔
+      s ≠ [] ∧ dirOnly s = false ∧ p ≠ [] ∧ find? t p = none ∧ isDir t (parent p) = true := by
+  unfold fileCreateAt
   split
   · next h =>
     simp only [Bool.false_eq_true, false_iff]
@@ -158,52 +162,45 @@ theorem fileCreate_success_iff (t : Tree) (s : Str) :
     simp only [true_iff]
     exact ⟨h1, h2, h3, (find?_none_iff_not_exists t _).1 h4, h5⟩
 
-/-- FILE_CREATE creates an empty file, and only where nothing exists -/
-theorem create_only_if_absent (t : Tree) (s : Str) (h : (fileCreate t s).2 = true) :
-    find? t (components s) = none ∧ find? (fileCreate t s).1 (components s) = some (.file []) := by
-  have h' := (fileCreate_success_iff t s).1 h
+theorem fileCreateAt_only_if_absent (t : Tree) (s : Str) (p : Path) (h : (fileCreateAt t s p).2 = true) :
+    find? t p = none ∧ find? (fileCreateAt t s p).1 p = some (.file []) := by
+  have h' := (fileCreateAt_success_iff t s p).1 h
   refine ⟨h'.2.2.2.1, ?_⟩
-  have hcond : (s == [] || trailingSlash s || components s == [] || pathExists t (components s) ||
-      !isDir t (parent (components s))) = false := by
+  have hcond : (s == [] || dirOnly s || p == [] || pathExists t p || !isDir t (parent p)) = false := by
     simp [h'.1, h'.2.1, h'.2.2.1, h'.2.2.2.2, pathExists, h'.2.2.2.1]
-  unfold fileCreate
+  unfold fileCreateAt
   simp only [hcond, Bool.false_eq_true, ↓reduceIte]
   simp [find?_put, h'.2.2.1]
 
-theorem dirCreate_success_iff (t : Tree) (s : Str) :
-    (dirCreate t s).2 = true ↔
-      s ≠ [] ∧ components s ≠ [] ∧ find? t (components s) = none ∧ isDir t (parent (components s)) = true := by
-  unfold dirCreate
-  simp only []
+theorem dirCreateAt_success_iff (t : Tree) (s : Str) (p : Path) :
+    (dirCreateAt t s p).2 = true ↔
+      s ≠ [] ∧ endsDotDot s = false ∧ p ≠ [] ∧ find? t p = none ∧ isDir t (parent p) = true := by
+  unfold dirCreateAt
   split
   · next h =>
     simp only [Bool.false_eq_true, false_iff]
-    rintro ⟨h1, h3, h4, h5⟩
-    simp [h1, h3, h5, pathExists, h4] at h
+    rintro ⟨h1, h2, h3, h4, h5⟩
+    simp [h1, h2, h3, h5, pathExists, h4] at h
   · next h =>
     simp only [Bool.or_eq_true, beq_iff_eq, Bool.not_eq_eq_eq_not, Bool.not_true, not_or,
       Bool.not_eq_true, Bool.not_eq_false] at h
-    obtain ⟨⟨⟨h1, h3⟩, h4⟩, h5⟩ := h
+    obtain ⟨⟨⟨⟨h1, h2⟩, h3⟩, h4⟩, h5⟩ := h
     simp only [true_iff]
-    exact ⟨h1, h3, (find?_none_iff_not_exists t _).1 h4, h5⟩
+    exact ⟨h1, h2, h3, (find?_none_iff_not_exists t _).1 h4, h5⟩
 
-theorem dirCreate_only_if_absent (t : Tree) (s : Str) (h : (dirCreate t s).2 = true) :
-    find? t (components s) = none ∧ find? (dirCreate t s).1 (components s) = some .dir := by
-  have h' := (dirCreate_success_iff t s).1 h
-  refine ⟨h'.2.2.1, ?_⟩
-  have hcond : (s == [] || components s == [] || pathExists t (components s) ||
-      !isDir t (parent (components s))) = false := by
-    simp [h'.1, h'.2.1, h'.2.2.2, pathExists, h'.2.2.1]
-  unfold dirCreate
+theorem dirCreateAt_only_if_absent (t : Tree) (s : Str) (p : Path) (h : (dirCreateAt t s p).2 = true) :
+    find? t p = none ∧ find? (dirCreateAt t s p).1 p = some .dir := by
+  have h' := (dirCreateAt_success_iff t s p).1 h
+  refine ⟨h'.2.2.2.1, ?_⟩
+  have hcond : (s == [] || endsDotDot s || p == [] || pathExists t p || !isDir t (parent p)) = false := by
+    simp [h'.1, h'.2.1, h'.2.2.1, h'.2.2.2.2, pathExists, h'.2.2.2.1]
+  unfold dirCreateAt
   simp only [hcond, Bool.false_eq_true, ↓reduceIte]
-  simp [find?_put, h'.2.1]
+  simp [find?_put, h'.2.2.1]
 
-/-- FILE_APPEND succeeds exactly on an existing file (named without a trailing slash) -/
-theorem fileAppend_success_iff (t : Tree) (s text : Str) :
-    (fileAppend t s text).2 = true ↔
-      s ≠ [] ∧ trailingSlash s = false ∧ ∃ c, find? t (components s) = some (.file c) := by
-  unfold fileAppend
-  simp only []
+theorem fileAppendAt_success_iff (t : Tree) (s : Str) (p : Path) (text : Str) :
+    (fileAppendAt t s p text).2 = true ↔ s ≠ [] ∧ dirOnly s = false ∧ ∃ c, find? t p = some (.file c) := by
+  unfold fileAppendAt
   split
   · next h =>
     simp only [Bool.false_eq_true, false_iff]
@@ -218,11 +215,9 @@ theorem fileAppend_success_iff (t : Tree) (s text : Str) :
       rintro ⟨_, _, c, hc⟩
       exact hn c hc
 
-theorem fileOverwrite_success_iff (t : Tree) (s text : Str) :
-    (fileOverwrite t s text).2 = true ↔
-      s ≠ [] ∧ trailingSlash s = false ∧ ∃ c, find? t (components s) = some (.file c) := by
-  unfold fileOverwrite
-  simp only []
+theorem fileOverwriteAt_success_iff (t : Tree) (s : Str) (p : Path) (text : Str) :
+    (fileOverwriteAt t s p text).2 = true ↔ s ≠ [] ∧ dirOnly s = false ∧ ∃ c, find? t p = some (.file c) := by
+  unfold fileOverwriteAt
   split
   · next h =>
     simp only [Bool.false_eq_true, false_iff]
@@ -240,81 +235,62 @@ theorem fileOverwrite_success_iff (t : Tree) (s text : Str) :
 theorem find?_file_ne_nil {t : Tree} {p : Path} {c : Str} (h : find? t p = some (.file c)) : p ≠ [] := by
   intro hp; rw [hp, find?_nil] at h; cases h
 
-/-- FILE_APPEND / FILE_OVERWRITE need an existing file; on success the content is `old ++ text` / `text` -/
-theorem append_overwrite_need_existing_file (t : Tree) (s text : Str) :
-    ((fileAppend t s text).2 = true ↔ isFileS t s = true) ∧
-    ((fileOverwrite t s text).2 = true ↔ isFileS t s = true) ∧
-    (∀ old, s ≠ [] → trailingSlash s = false → find? t (components s) = some (.file old) →
-      find? (fileAppend t s text).1 (components s) = some (.file (old ++ text)) ∧
-      find? (fileOverwrite t s text).1 (components s) = some (.file text)) := by
-  have hfile : isFileS t s = true ↔
-      s ≠ [] ∧ trailingSlash s = false ∧ ∃ c, find? t (components s) = some (.file c) := by
-    unfold isFileS isFile
-    cases hf : find? t (components s) with
-    | none => simp
-    | some n => cases n <;> simp
-  refine ⟨by rw [fileAppend_success_iff, hfile], by rw [fileOverwrite_success_iff, hfile], ?_⟩
-  intro old h1 h2 h3
+theorem isFileAt_iff (t : Tree) (s : Str) (p : Path) :
+    isFileAt t s p = true ↔ s ≠ [] ∧ dirOnly s = false ∧ ∃ c, find? t p = some (.file c) := by
+  unfold isFileAt isFile
+  cases hf : find? t p with
+  | none => simp
+  | some n => cases n <;> simp
+
+theorem appendAt_overwriteAt_contents (t : Tree) (s : Str) (p : Path) (text old : Str)
+    (h1 : s ≠ []) (h2 : dirOnly s = false) (h3 : find? t p = some (.file old)) :
+    find? (fileAppendAt t s p text).1 p = some (.file (old ++ text)) ∧
+    find? (fileOverwriteAt t s p text).1 p = some (.file text) := by
   have hp := find?_file_ne_nil h3
-  unfold fileAppend fileOverwrite
+  unfold fileAppendAt fileOverwriteAt
   simp [h1, h2, h3, find?_put, hp]
 
-/-! ## failure leaves the tree as it was -/
+/-! ## at a resolved path: failure leaves the tree as it was -/
 
-theorem fileCreate_failure_unchanged (t : Tree) (s : Str) (h : (fileCreate t s).2 = false) :
-    (fileCreate t s).1 = t := by
-  unfold fileCreate at *; simp only [] at *; split <;> simp_all
+theorem fileCreateAt_failure_unchanged (t : Tree) (s : Str) (p : Path) (h : (fileCreateAt t s p).2 = false) :
+    (fileCreateAt t s p).1 = t := by
+  unfold fileCreateAt at *; split <;> simp_all
 
-theorem fileRemove_failure_unchanged (t : Tree) (s : Str) (h : (fileRemove t s).2 = false) :
-    (fileRemove t s).1 = t := by
-  unfold fileRemove at *; simp only [] at *; split <;> simp_all
+theorem fileRemoveAt_failure_unchanged (t : Tree) (s : Str) (p : Path) (h : (fileRemoveAt t s p).2 = false) :
+    (fileRemoveAt t s p).1 = t := by
+  unfold fileRemoveAt at *; split <;> simp_all
 
-theorem fileAppend_failure_unchanged (t : Tree) (s text : Str) (h : (fileAppend t s text).2 = false) :
-    (fileAppend t s text).1 = t := by
-  unfold fileAppend at *; simp only [] at *
+theorem fileAppendAt_failure_unchanged (t : Tree) (s : Str) (p : Path) (text : Str)
+    (h : (fileAppendAt t s p text).2 = false) : (fileAppendAt t s p text).1 = t := by
+  unfold fileAppendAt at *
   split
   · rfl
   · split
     · next hc => simp [hc] at h; split at h <;> simp_all
     · rfl
 
-theorem fileOverwrite_failure_unchanged (t : Tree) (s text : Str) (h : (fileOverwrite t s text).2 = false) :
-    (fileOverwrite t s text).1 = t := by
-  unfold fileOverwrite at *; simp only [] at *
+theorem fileOverwriteAt_failure_unchanged (t : Tree) (s : Str) (p : Path) (text : Str)
+    (h : (fileOverwriteAt t s p text).2 = false) : (fileOverwriteAt t s p text).1 = t := by
+  unfold fileOverwriteAt at *
   split
   · rfl
   · split
     · next hc => simp [hc] at h; split at h <;> simp_all
     · rfl
 
-theorem dirCreate_failure_unchanged (t : Tree) (s : Str) (h : (dirCreate t s).2 = false) :
-    (dirCreate t s).1 = t := by
-  unfold dirCreate at *; simp only [] at *; split <;> simp_all
+theorem dirCreateAt_failure_unchanged (t : Tree) (s : Str) (p : Path) (h : (dirCreateAt t s p).2 = false) :
+    (dirCreateAt t s p).1 = t := by
+  unfold dirCreateAt at *; split <;> simp_all
 
-theorem dirCreateAll_failure_unchanged (t : Tree) (s : Str) (h : (dirCreateAll t s).2 = false) :
-    (dirCreateAll t s).1 = t := by
-  rw [dirCreateAll_eq] at *; split <;> simp_all
+theorem dirRemoveAt_failure_unchanged (t : Tree) (s : Str) (p : Path) (h : (dirRemoveAt t s p).2 = false) :
+    (dirRemoveAt t s p).1 = t := by
+  unfold dirRemoveAt at *; split <;> simp_all
 
-theorem dirRemove_failure_unchanged (t : Tree) (s : Str) (h : (dirRemove t s).2 = false) :
-    (dirRemove t s).1 = t := by
-  unfold dirRemove at *; simp only [] at *; split <;> simp_all
+/-! ## at a resolved path: reading, removal, the predicates -/
 
-/-- for `DIRECTORY_REMOVE_ALL` the rule holds on every path but the root (see `dirRemoveAll_root`) -/
-theorem dirRemoveAll_failure_unchanged (t : Tree) (s : Str) (hroot : s = [] ∨ components s ≠ [])
-    (h : (dirRemoveAll t s).2 = false) : (dirRemoveAll t s).1 = t := by
-  unfold dirRemoveAll at *; simp only [] at *
-  split
-  · next hc => simp [hc] at h
-  · split
-    · next hc =>
-      rcases hroot with h0 | h0 <;> simp [h0] at hc
-    · rfl
-
-/-! ## reading -/
-
-theorem fileRead_eq (t : Tree) (s : Str) (c : Str) :
-    fileRead t s = some c ↔ s ≠ [] ∧ trailingSlash s = false ∧ find? t (components s) = some (.file c) := by
-  unfold fileRead
+theorem fileReadAt_eq (t : Tree) (s : Str) (p : Path) (c : Str) :
+    fileReadAt t s p = some c ↔ s ≠ [] ∧ dirOnly s = false ∧ find? t p = some (.file c) := by
+  unfold fileReadAt
   split
   · next h =>
     simp only [reduceCtorEq, false_iff]
@@ -327,223 +303,96 @@ theorem fileRead_eq (t : Tree) (s : Str) (c : Str) :
       simp only [reduceCtorEq, false_iff]
       rintro ⟨_, _, hc⟩; exact hn c hc
 
-/-- FILE_READ returns exactly what was last written -/
-theorem read_returns_exact_contents (t : Tree) (s text : Str) :
-    ((fileOverwrite t s text).2 = true → fileRead (fileOverwrite t s text).1 s = some text) ∧
-    (∀ old, fileRead t s = some old → fileRead (fileAppend t s text).1 s = some (old ++ text)) ∧
-    ((fileCreate t s).2 = true → fileRead (fileCreate t s).1 s = some []) := by
-  refine ⟨?_, ?_, ?_⟩
-  · intro h
-    obtain ⟨h1, h2, c, hc⟩ := (fileOverwrite_success_iff t s text).1 h
-    rw [fileRead_eq]
-    exact ⟨h1, h2, ((append_overwrite_need_existing_file t s text).2.2 c h1 h2 hc).2⟩
-  · intro old h
-    obtain ⟨h1, h2, hc⟩ := (fileRead_eq t s old).1 h
-    rw [fileRead_eq]
-    exact ⟨h1, h2, ((append_overwrite_need_existing_file t s text).2.2 old h1 h2 hc).1⟩
-  · intro h
-    obtain ⟨h1, h2, _⟩ := (fileCreate_success_iff t s).1 h
-    rw [fileRead_eq]
-    exact ⟨h1, h2, (create_only_if_absent t s h).2⟩
+theorem fileRemoveAt_success_iff (t : Tree) (s : Str) (p : Path) :
+    (fileRemoveAt t s p).2 = true ↔ isFileAt t s p = true := by
+  unfold fileRemoveAt isFileAt; split <;> simp_all
 
-/-- a successful append implies the file was readable, and reads back as `old ++ text` -/
-theorem read_after_append (t : Tree) (s text : Str) (h : (fileAppend t s text).2 = true) :
-    ∃ old, fileRead t s = some old ∧ fileRead (fileAppend t s text).1 s = some (old ++ text) := by
-  obtain ⟨h1, h2, c, hc⟩ := (fileAppend_success_iff t s text).1 h
-  have hr : fileRead t s = some c := (fileRead_eq t s c).2 ⟨h1, h2, hc⟩
-  exact ⟨c, hr, (read_returns_exact_contents t s text).2.1 c hr⟩
+theorem fileRemoveAt_then_absent (t : Tree) (s : Str) (p : Path) (h : (fileRemoveAt t s p).2 = true) :
+    find? (fileRemoveAt t s p).1 p = none := by
+  have hp : p ≠ [] := by
+    obtain ⟨_, _, c, hc⟩ := (isFileAt_iff t s p).1 ((fileRemoveAt_success_iff t s p).1 h)
+    exact find?_file_ne_nil hc
+  unfold fileRemoveAt at h ⊢
+  split
+  · simp [find?_erase, hp]
+  · next hc => simp [hc] at h
 
-/-- reading depends on the tree only through `find?` at the named path -/
-theorem fileRead_congr (t t' : Tree) (s : Str) (h : find? t' (components s) = find? t (components s)) :
-    fileRead t' s = fileRead t s := by
-  unfold fileRead; rw [h]
-
-/-- reading a file is unaffected by operations on other paths -/
-theorem read_unaffected_by_other_paths (t : Tree) (s s' text : Str) (h : components s' ≠ components s) :
-    fileRead (fileCreate t s).1 s' = fileRead t s' ∧
-    fileRead (fileRemove t s).1 s' = fileRead t s' ∧
-    fileRead (fileAppend t s text).1 s' = fileRead t s' ∧
-    fileRead (fileOverwrite t s text).1 s' = fileRead t s' ∧
-    fileRead (dirCreate t s).1 s' = fileRead t s' ∧
-    fileRead (dirRemove t s).1 s' = fileRead t s' :=
-  ⟨fileRead_congr _ _ _ (fileCreate_frame t s _ h), fileRead_congr _ _ _ (fileRemove_frame t s _ h),
-   fileRead_congr _ _ _ (fileAppend_frame t s text _ h), fileRead_congr _ _ _ (fileOverwrite_frame t s text _ h),
-   fileRead_congr _ _ _ (dirCreate_frame t s _ h), fileRead_congr _ _ _ (dirRemove_frame t s _ h)⟩
-
-/-- DIRECTORY_CREATE_ALL changes the contents of no file (it only adds directories where nothing was) -/
-theorem read_unaffected_by_dirCreateAll (t : Tree) (s s' : Str) :
-    fileRead (dirCreateAll t s).1 s' = fileRead t s' := by
-  unfold fileRead
-  rw [dirCreateAll_frame]
-  by_cases hc : components s' ∈ prefixes (components s) ∧ find? t (components s') = none ∧
-      (dirCreateAll t s).2 = true
-  · rw [if_pos hc, hc.2.1]
-  · rw [if_neg hc]
-
-/-- DIRECTORY_REMOVE_ALL leaves every file outside the named directory readable as before -/
-theorem read_unaffected_by_dirRemoveAll_outside (t : Tree) (s s' : Str) (hroot : components s ≠ [])
-    (h : (components s).isPrefixOf (components s') = false) :
-    fileRead (dirRemoveAll t s).1 s' = fileRead t s' :=
-  fileRead_congr _ _ _ (dirRemoveAll_frame_outside t s _ hroot h)
-
-/-! ## removal -/
-
-theorem dirRemoveAll_nonroot_of_success (t : Tree) (s : Str) (h : (dirRemoveAll t s).2 = true) :
-    components s ≠ [] := by
-  unfold dirRemoveAll at h; simp only [] at h
-  split at h
-  · next hc => simp only [Bool.and_eq_true, bne_iff_ne] at hc; exact hc.1.2
-  · split at h <;> cases h
-
-theorem fileRemove_success_iff (t : Tree) (s : Str) :
-    (fileRemove t s).2 = true ↔ isFileS t s = true := by
-  unfold fileRemove isFileS; simp only []; split <;> simp_all
-
-/-- after a successful FILE_REMOVE / DIRECTORY_REMOVE / DIRECTORY_REMOVE_ALL the path names nothing -/
-theorem remove_then_absent (t : Tree) (s : Str) :
-    ((fileRemove t s).2 = true →
-      find? (fileRemove t s).1 (components s) = none ∧ existsS (fileRemove t s).1 s = false) ∧
-    ((dirRemove t s).2 = true →
-      find? (dirRemove t s).1 (components s) = none ∧ existsS (dirRemove t s).1 s = false) ∧
-    ((dirRemoveAll t s).2 = true →
-      find? (dirRemoveAll t s).1 (components s) = none ∧ existsS (dirRemoveAll t s).1 s = false) := by
-  have hex : ∀ t' : Tree, find? t' (components s) = none → existsS t' s = false := by
-    intro t' h; unfold existsS isDir pathExists; simp [h]
-  refine ⟨?_, ?_, ?_⟩
-  · intro h
-    have hp : components s ≠ [] := by
-      unfold fileRemove at h; simp only [] at h
-      split at h
-      · next hc =>
-        simp only [Bool.and_eq_true] at hc
-        intro h0; rw [h0] at hc; simp [isFile, find?_nil] at hc
-      · cases h
-    have : find? (fileRemove t s).1 (components s) = none := by
-      unfold fileRemove at h ⊢; simp only [] at h ⊢
-      split
-      · simp [find?_erase, hp]
-      · next hc => simp [hc] at h
-    exact ⟨this, hex _ this⟩
-  · intro h
-    have : find? (dirRemove t s).1 (components s) = none := by
-      unfold dirRemove at h ⊢; simp only [] at h ⊢
-      split
-      · next hc =>
-        have hp : components s ≠ [] := by simp only [Bool.and_eq_true, bne_iff_ne] at hc; exact hc.1.1.2
-        simp [find?_erase, hp]
-      · next hc => simp [hc] at h
-    exact ⟨this, hex _ this⟩
-  · intro h
-    have : find? (dirRemoveAll t s).1 (components s) = none := by
-      rw [dirRemoveAll_frame t s _ (dirRemoveAll_nonroot_of_success t s h), h]
-      simp
-    exact ⟨this, hex _ this⟩
-
-theorem dirRemove_success_iff (t : Tree) (s : Str) :
-    (dirRemove t s).2 = true ↔
-      s ≠ [] ∧ components s ≠ [] ∧ find? t (components s) = some .dir ∧ children t (components s) = [] := by
-  have hd : isDir t (components s) = true ↔ find? t (components s) = some .dir := by
-    unfold isDir
-    cases find? t (components s) with
-    | none => simp
-    | some n => cases n <;> simp
-  unfold dirRemove; simp only []
+theorem dirRemoveAt_success_iff (t : Tree) (s : Str) (p : Path) :
+    (dirRemoveAt t s p).2 = true ↔
+      s ≠ [] ∧ endsDotDot s = false ∧ p ≠ [] ∧ find? t p = some .dir ∧ children t p = [] := by
+  unfold dirRemoveAt
   split
   · next h =>
-    simp only [Bool.and_eq_true, bne_iff_ne, ne_eq, List.isEmpty_iff] at h
+    simp only [Bool.and_eq_true, bne_iff_ne, ne_eq, List.isEmpty_iff, Bool.not_eq_eq_eq_not, Bool.not_true] at h
     simp only [true_iff]
-    exact ⟨h.1.1.1, h.1.1.2, hd.1 h.1.2, h.2⟩
+    exact ⟨h.1.1.1.1, h.1.1.1.2, h.1.1.2, (isDir_iff t p).1 h.1.2, h.2⟩
   · next h =>
     simp only [Bool.false_eq_true, false_iff]
-    rintro ⟨h1, h2, h3, h4⟩
-    simp [h1, h2, hd.2 h3, h4] at h
+    rintro ⟨h1, h2, h3, h4, h5⟩
+    simp [h1, h2, h3, (isDir_iff t p).2 h4, h5] at h
 
-/-- DIRECTORY_REMOVE removes only an empty directory -/
-theorem dirRemove_only_if_empty (t : Tree) (s : Str) (h : (dirRemove t s).2 = true) :
-    children t (components s) = [] := ((dirRemove_success_iff t s).1 h).2.2.2
+theorem dirRemoveAt_then_absent (t : Tree) (s : Str) (p : Path) (h : (dirRemoveAt t s p).2 = true) :
+    find? (dirRemoveAt t s p).1 p = none := by
+  have hp := ((dirRemoveAt_success_iff t s p).1 h).2.2.1
+  unfold dirRemoveAt at h ⊢
+  split
+  · simp [find?_erase, hp]
+  · next hc => simp [hc] at h
 
-theorem dirRemoveAll_success_iff (t : Tree) (s : Str) :
-    (dirRemoveAll t s).2 = true ↔ s ≠ [] ∧ components s ≠ [] ∧ find? t (components s) = some .dir := by
-  have hd : isDir t (components s) = true ↔ find? t (components s) = some .dir := by
-    unfold isDir
-    cases find? t (components s) with
-    | none => simp
-    | some n => cases n <;> simp
-  unfold dirRemoveAll; simp only []
+theorem dirRemoveAllAt_success_iff (t : Tree) (s : Str) (p : Path) :
+    (dirRemoveAllAt t s p).2 = true ↔
+      s ≠ [] ∧ find? t p = some .dir ∧
+        (resolve (eraseBelow t p) s = none ∨ (p ≠ [] ∧ endsDotDot s = false)) := by
+  unfold dirRemoveAllAt
   split
   · next h =>
-    simp only [Bool.and_eq_true, bne_iff_ne, ne_eq] at h
-    simp only [true_iff]
-    exact ⟨h.1.1, h.1.2, hd.1 h.2⟩
-  · next h =>
-    have : ∀ b : Bool, (if s ≠ [] ∧ components s = [] then (([] : Tree), false) else (t, false)).2 = b ↔ b = false := by
-      intro b; split <;> simp [eq_comm]
-    split
-    · simp only [Bool.false_eq_true, false_iff]
-      rintro ⟨h1, h2, h3⟩; simp [h1, h2, hd.2 h3] at h
-    · simp only [Bool.false_eq_true, false_iff]
-      rintro ⟨h1, h2, h3⟩; simp [h1, h2, hd.2 h3] at h
-
-/-- DIRECTORY_CREATE_ALL fails exactly when some prefix of the path is a file -/
-theorem dirCreateAll_success_iff (t : Tree) (s : Str) :
-    (dirCreateAll t s).2 = true ↔ ∀ q ∈ prefixes (components s), isFile t q = false := by
-  rw [dirCreateAll_eq]
-  split
-  · next h =>
+    simp only [Bool.or_eq_true, beq_iff_eq, Bool.not_eq_eq_eq_not, Bool.not_true] at h
     simp only [Bool.false_eq_true, false_iff]
-    simp only [List.any_eq_true] at h
-    obtain ⟨q, hq, hf⟩ := h
-    intro hall
-    have := hall q hq
-    simp [hf] at this
+    rintro ⟨h1, h2, _⟩
+    rcases h with h | h
+    · exact h1 h
+    · rw [(isDir_iff t p).2 h2] at h; cases h
   · next h =>
-    simp only [List.any_eq_true, not_exists, not_and, Bool.not_eq_true] at h
-    simpa using h
+    simp only [Bool.or_eq_true, beq_iff_eq, Bool.not_eq_eq_eq_not, Bool.not_true, not_or, Bool.not_eq_false] at h
+    have hd := (isDir_iff t p).1 h.2
+    cases hres : resolve (eraseBelow t p) s with
+    | none => simp [h.1, hd]
+    | some p' =>
+      simp only [h.1, hd, ne_eq, not_false_eq_true, reduceCtorEq, false_or, true_and]
+      by_cases hc : (p == [] || endsDotDot s) = true
+      · simp only [hc, ↓reduceIte, Bool.false_eq_true, false_iff]
+        simp only [Bool.or_eq_true, beq_iff_eq] at hc
+        rintro ⟨h1, h2⟩
+        rcases hc with hc | hc
+        · exact h1 hc
+        · rw [h2] at hc; cases hc
+      · simp only [hc, Bool.false_eq_true, ↓reduceIte, true_iff]
+        simp only [Bool.or_eq_true, beq_iff_eq, not_or, Bool.not_eq_true] at hc
+        exact hc
 
-/-- after a successful DIRECTORY_CREATE_ALL every prefix of the path is a directory -/
-theorem dirCreateAll_makes_dirs (t : Tree) (s : Str) (h : (dirCreateAll t s).2 = true) :
-    ∀ q ∈ prefixes (components s), find? (dirCreateAll t s).1 q = some .dir := by
-  intro q hq
-  have hf := (dirCreateAll_success_iff t s).1 h q hq
-  rw [dirCreateAll_frame, h]
-  unfold isFile at hf
-  cases hc : find? t q with
-  | none => simp [hq]
-  | some n => cases n <;> simp_all
+theorem existsAt_false_of_absent (t : Tree) (s : Str) (p : Path) (h : find? t p = none) : existsAt t s p = false := by
+  unfold existsAt isDir pathExists; simp [h]
 
-/-! ## the PATH_* predicates agree with `find?` -/
-
-theorem path_predicates_agree_with_find (t : Tree) (s : Str) :
-    (existsS t s = true ↔
-      s ≠ [] ∧ (if trailingSlash s = true then find? t (components s) = some .dir
-                else (find? t (components s)).isSome = true)) ∧
-    (isFileS t s = true ↔ s ≠ [] ∧ trailingSlash s = false ∧ ∃ c, find? t (components s) = some (.file c)) ∧
-    (isDirS t s = true ↔ s ≠ [] ∧ find? t (components s) = some .dir) := by
-  unfold existsS isFileS isDirS isDir isFile pathExists
-  cases hf : find? t (components s) with
+theorem predicatesAt_agree_with_find (t : Tree) (s : Str) (p : Path) :
+    (existsAt t s p = true ↔
+      s ≠ [] ∧ (if dirOnly s = true then find? t p = some .dir else (find? t p).isSome = true)) ∧
+    (isFileAt t s p = true ↔ s ≠ [] ∧ dirOnly s = false ∧ ∃ c, find? t p = some (.file c)) ∧
+    (isDirAt t s p = true ↔ s ≠ [] ∧ find? t p = some .dir) := by
+  unfold existsAt isFileAt isDirAt isDir isFile pathExists
+  cases hf : find? t p with
   | none => simp
   | some n => cases n <;> simp
 
-/-- PATH_IS_FILE says TRUE exactly for the paths FILE_READ can read -/
-theorem isFileS_iff_readable (t : Tree) (s : Str) : isFileS t s = true ↔ ∃ c, fileRead t s = some c := by
-  rw [(path_predicates_agree_with_find t s).2.1]
-  constructor
-  · rintro ⟨h1, h2, c, hc⟩; exact ⟨c, (fileRead_eq t s c).2 ⟨h1, h2, hc⟩⟩
-  · rintro ⟨c, hc⟩
-    obtain ⟨h1, h2, h3⟩ := (fileRead_eq t s c).1 hc
-    exact ⟨h1, h2, c, h3⟩
-
-/-- the predicates only read: they are determined by `find?` at the named path, so (by the frame
-theorems) an operation on another path does not change their answer -/
-theorem path_predicates_congr (t t' : Tree) (s : Str) (h : find? t' (components s) = find? t (components s)) :
-    existsS t' s = existsS t s ∧ isFileS t' s = isFileS t s ∧ isDirS t' s = isDirS t s := by
-  unfold existsS isFileS isDirS isDir isFile pathExists
+theorem predicatesAt_congr (t t' : Tree) (s : Str) (p : Path) (h : find? t' p = find? t p) :
+    existsAt t' s p = existsAt t s p ∧ isFileAt t' s p = isFileAt t s p ∧ isDirAt t' s p = isDirAt t s p := by
+  unfold existsAt isFileAt isDirAt isDir isFile pathExists
   rw [h]; simp
 
-/-- DIRECTORY_READ lists exactly the direct children of the named directory, each as `path/name` -/
-theorem dirRead_lists_children (t : Tree) (s : Str) (names : List Str) (h : dirRead t s = some names) :
-    s ≠ [] ∧ find? t (components s) = some .dir ∧ names.length = (children t (components s)).length := by
-  unfold dirRead at h
+theorem dirReadAt_lists_children (t : Tree) (s : Str) (p : Path) (names : List Str)
+    (h : dirReadAt t s p = some names) :
+    s ≠ [] ∧ find? t p = some .dir ∧
+      names = (children t p).map fun q => (if s.getLast? == some '/' then s else s ++ ['/']) ++ q.getLast?.getD [] := by
+  unfold dirReadAt at h
   simp only [] at h
   split at h
   · cases h
@@ -551,52 +400,1394 @@ theorem dirRead_lists_children (t : Tree) (s : Str) (names : List Str) (h : dirR
     simp only [Bool.or_eq_true, beq_iff_eq, Bool.not_eq_eq_eq_not, Bool.not_true, not_or,
       Bool.not_eq_false] at hc
     injection h with h
-    refine ⟨hc.1, ?_, by rw [← h]; simp⟩
-    have := hc.2
-    unfold isDir at this
-    cases hf : find? t (components s) with
-    | none => simp [hf] at this
-    | some n => cases n <;> simp_all
+    exact ⟨hc.1, (isDir_iff t p).1 hc.2, h.symm⟩
+
+end Aplang.Fs
+
+namespace Aplang.Fs
+
+/-! ## the operations on path strings are the operations at the resolved path -/
+
+/-- the common shape of the operations that return a flag -/
+def onResolved (t : Tree) (s : Str) (k : Path → Tree × Bool) : Tree × Bool :=
+  match resolve t s with | none => (t, false) | some p => k p
+
+theorem fileCreate_on (t : Tree) (s : Str) : fileCreate t s = onResolved t s (fileCreateAt t s) := by
+  unfold fileCreate onResolved; cases resolve t s <;> rfl
+theorem fileRemove_on (t : Tree) (s : Str) : fileRemove t s = onResolved t s (fileRemoveAt t s) := by
+  unfold fileRemove onResolved; cases resolve t s <;> rfl
+theorem fileAppend_on (t : Tree) (s text : Str) :
+    fileAppend t s text = onResolved t s (fun p => fileAppendAt t s p text) := by
+  unfold fileAppend onResolved; cases resolve t s <;> rfl
+theorem fileOverwrite_on (t : Tree) (s text : Str) :
+    fileOverwrite t s text = onResolved t s (fun p => fileOverwriteAt t s p text) := by
+  unfold fileOverwrite onResolved; cases resolve t s <;> rfl
+theorem dirCreate_on (t : Tree) (s : Str) : dirCreate t s = onResolved t s (dirCreateAt t s) := by
+  unfold dirCreate onResolved; cases resolve t s <;> rfl
+theorem dirRemove_on (t : Tree) (s : Str) : dirRemove t s = onResolved t s (dirRemoveAt t s) := by
+  unfold dirRemove onResolved; cases resolve t s <;> rfl
+theorem dirRemoveAll_on (t : Tree) (s : Str) : dirRemoveAll t s = onResolved t s (dirRemoveAllAt t s) := by
+  unfold dirRemoveAll onResolved; cases resolve t s <;> rfl
+
+theorem onResolved_some {t : Tree} {s : Str} {k : Path → Tree × Bool} {p : Path} (h : resolve t s = some p) :
+    onResolved t s k = k p := by simp [onResolved, h]
+theorem onResolved_none {t : Tree} {s : Str} {k : Path → Tree × Bool} (h : resolve t s = none) :
+    onResolved t s k = (t, false) := by simp [onResolved, h]
+
+theorem onResolved_flag (t : Tree) (s : Str) (k : Path → Tree × Bool) :
+    (onResolved t s k).2 = true ↔ ∃ p, resolve t s = some p ∧ (k p).2 = true := by
+  unfold onResolved; cases resolve t s <;> simp
+
+theorem onResolved_frame (t : Tree) (s : Str) (k : Path → Tree × Bool) (q : Path)
+    (hk : ∀ p, q ≠ p → find? (k p).1 q = find? t q) (hq : resolve t s ≠ some q) :
+    find? (onResolved t s k).1 q = find? t q := by
+  unfold onResolved
+  cases hr : resolve t s with
+  | none => rfl
+  | some p => exact hk p (fun e => hq (by rw [hr, e]))
+
+theorem onResolved_unchanged (t : Tree) (s : Str) (k : Path → Tree × Bool)
+    (hk : ∀ p, resolve t s = some p → (k p).2 = false → (k p).1 = t) (h : (onResolved t s k).2 = false) :
+    (onResolved t s k).1 = t := by
+  cases hr : resolve t s with
+  | none => rw [onResolved_none hr]
+  | some p => rw [onResolved_some hr] at h ⊢; exact hk p hr h
+
+/-- the value-returning operations at the resolved path -/
+theorem fileRead_of_resolve {t : Tree} {s : Str} {p : Path} (h : resolve t s = some p) :
+    fileRead t s = fileReadAt t s p := by simp [fileRead, h]
+theorem dirRead_of_resolve {t : Tree} {s : Str} {p : Path} (h : resolve t s = some p) :
+    dirRead t s = dirReadAt t s p := by simp [dirRead, h]
+theorem existsS_of_resolve {t : Tree} {s : Str} {p : Path} (h : resolve t s = some p) :
+    existsS t s = existsAt t s p := by simp [existsS, h]
+theorem isFileS_of_resolve {t : Tree} {s : Str} {p : Path} (h : resolve t s = some p) :
+    isFileS t s = isFileAt t s p := by simp [isFileS, h]
+theorem isDirS_of_resolve {t : Tree} {s : Str} {p : Path} (h : resolve t s = some p) :
+    isDirS t s = isDirAt t s p := by simp [isDirS, h]
+
+/-- a path string that does not resolve (a `..` taken from a missing name or from a file): every
+operation that goes through `resolve` reports failure by value and leaves the tree as it was -/
+theorem unresolved_fails (t : Tree) (s : Str) (h : resolve t s = none) (text : Str) :
+    existsS t s = false ∧ isFileS t s = false ∧ isDirS t s = false ∧
+    fileCreate t s = (t, false) ∧ fileRemove t s = (t, false) ∧ fileRead t s = none ∧
+    fileAppend t s text = (t, false) ∧ fileOverwrite t s text = (t, false) ∧
+    dirCreate t s = (t, false) ∧ dirRemove t s = (t, false) ∧ dirRemoveAll t s = (t, false) ∧
+    dirRead t s = none := by
+  simp [existsS, isFileS, isDirS, fileCreate, fileRemove, fileRead, fileAppend, fileOverwrite, dirCreate,
+    dirRemove, dirRemoveAll, dirRead, h]
+
+theorem ne_resolve_of_noDotDot {t : Tree} {s : Str} {q : Path} (hnd : noDotDot s = true)
+    (hq : q ≠ components s) : resolve t s ≠ some q := by
+  rw [resolve_eq_components t s hnd]; intro e; exact hq (Option.some.inj e).symm
+
+theorem isDir_erase_mono (t : Tree) (p q : Path) (h : isDir (erase t p) q = true) : isDir t q = true := by
+  rw [isDir_iff] at *
+  rw [find?_erase] at h
+  split at h
+  · next h0 => rw [h0, find?_nil]
+  · split at h
+    · cases h
+    · exact h
+
+theorem isDir_eraseUnder_mono (t : Tree) (p q : Path) (h : isDir (eraseUnder t p) q = true) : isDir t q = true := by
+  rw [isDir_iff] at *
+  rw [find?_eraseUnder] at h
+  split at h
+  · next h0 => rw [h0, find?_nil]
+  · split at h
+    · cases h
+    · exact h
+
+theorem isDir_eraseBelow_mono (t : Tree) (p q : Path) (h : isDir (eraseBelow t p) q = true) : isDir t q = true := by
+  rw [isDir_iff] at *
+  rw [find?_eraseBelow] at h
+  split at h
+  · next h0 => rw [h0, find?_nil]
+  · split at h
+    · cases h
+    · exact h
+
+theorem not_isDir_of_file {t : Tree} {p : Path} {c : Str} (h : find? t p = some (.file c)) : isDir t p = false := by
+  unfold isDir; rw [h]
+theorem not_isDir_of_absent {t : Tree} {p : Path} (h : find? t p = none) : isDir t p = false := by
+  unfold isDir; rw [h]
+
+theorem dropLast_strictly_above {p : Path} (h : p ≠ []) : (parent p).isPrefixOf p = true ∧ p ≠ parent p := by
+  unfold parent
+  refine ⟨List.isPrefixOf_iff_prefix.2 (List.dropLast_prefix p), fun e => ?_⟩
+  have := congrArg List.length e
+  rw [List.length_dropLast] at this
+  have hl : 0 < p.length := List.length_pos_iff.2 h
+  omega
+
+/-- a path string ending in `..`: where the `..` is taken from, and what it gives -/
+theorem resolve_ends (t : Tree) (s : Str) (hdd : endsDotDot s = true) :
+    resolve t s = (resolveFrom t [] (components s).dropLast).bind fun cur =>
+      if isDir t cur then some (parent cur) else none := by
+  have hc : components s = (components s).dropLast ++ [dotdot] := by
+    unfold endsDotDot at hdd
+    exact (dropLast_append_of_getLast? (by simpa using hdd)).symm
+  unfold resolve
+  conv => lhs; rw [hc]
+  rw [resolveFrom_append]
+  congr 1
+
+/-- a path string ending in `..` that names a directory other than the root: once everything below that
+directory is removed the string no longer resolves — the directory its last `..` is taken from is gone -/
+theorem dotdot_unresolved_after (t : Tree) (s : Str) (p : Path) (hdd : endsDotDot s = true)
+    (hr : resolve t s = some p) (hp : p ≠ []) : resolve (eraseBelow t p) s = none := by
+  have hmono : ∀ q, isDir (eraseBelow t p) q = true → isDir t q = true := fun q => isDir_eraseBelow_mono t p q
+  rw [resolve_ends _ s hdd]
+  cases hcur2 : resolveFrom (eraseBelow t p) [] (components s).dropLast with
+  | none => rfl
+  | some cur =>
+    have hcur := resolveFrom_mono hmono [] _ cur hcur2
+    rw [resolve_ends t s hdd, hcur] at hr
+    simp only [Option.bind_some] at hr ⊢
+    have hpc : p = parent cur := by
+      split at hr
+      · exact (Option.some.inj hr).symm
+      · cases hr
+    have hne : cur ≠ [] := by
+      intro e; rw [e] at hpc; exact hp hpc
+    obtain ⟨hpre, hne2⟩ := dropLast_strictly_above hne
+    have : isDir (eraseBelow t p) cur = false := by
+      apply not_isDir_of_absent
+      rw [find?_eraseBelow, hpc]
+      simp [hne, hpre, hne2]
+    rw [this]; rfl
+
+/-! ## frame theorems: only the path the string resolves to changes
+
+General form: every path `q` the string does not resolve to is as before (if the string does not
+resolve at all, nothing changes). Under `noDotDot s`: the form about `components s`. -/
+
+theorem fileCreate_frame_resolve (t : Tree) (s : Str) (q : Path) (hq : resolve t s ≠ some q) :
+    find? (fileCreate t s).1 q = find? t q := by
+  rw [fileCreate_on]; exact onResolved_frame t s _ q (fun p hp => fileCreateAt_frame t s p q hp) hq
+theorem fileRemove_frame_resolve (t : Tree) (s : Str) (q : Path) (hq : resolve t s ≠ some q) :
+    find? (fileRemove t s).1 q = find? t q := by
+  rw [fileRemove_on]; exact onResolved_frame t s _ q (fun p hp => fileRemoveAt_frame t s p q hp) hq
+theorem fileAppend_frame_resolve (t : Tree) (s text : Str) (q : Path) (hq : resolve t s ≠ some q) :
+    find? (fileAppend t s text).1 q = find? t q := by
+  rw [fileAppend_on]; exact onResolved_frame t s _ q (fun p hp => fileAppendAt_frame t s p text q hp) hq
+theorem fileOverwrite_frame_resolve (t : Tree) (s text : Str) (q : Path) (hq : resolve t s ≠ some q) :
+    find? (fileOverwrite t s text).1 q = find? t q := by
+  rw [fileOverwrite_on]; exact onResolved_frame t s _ q (fun p hp => fileOverwriteAt_frame t s p text q hp) hq
+theorem dirCreate_frame_resolve (t : Tree) (s : Str) (q : Path) (hq : resolve t s ≠ some q) :
+    find? (dirCreate t s).1 q = find? t q := by
+  rw [dirCreate_on]; exact onResolved_frame t s _ q (fun p hp => dirCreateAt_frame t s p q hp) hq
+theorem dirRemove_frame_resolve (t : Tree) (s : Str) (q : Path) (hq : resolve t s ≠ some q) :
+    find? (dirRemove t s).1 q = find? t q := by
+  rw [dirRemove_on]; exact onResolved_frame t s _ q (fun p hp => dirRemoveAt_frame t s p q hp) hq
+
+theorem fileCreate_frame (t : Tree) (s : Str) (q : Path) (hnd : noDotDot s = true) (hq : q ≠ components s) :
+    find? (fileCreate t s).1 q = find? t q := fileCreate_frame_resolve t s q (ne_resolve_of_noDotDot hnd hq)
+theorem fileRemove_frame (t : Tree) (s : Str) (q : Path) (hnd : noDotDot s = true) (hq : q ≠ components s) :
+    find? (fileRemove t s).1 q = find? t q := fileRemove_frame_resolve t s q (ne_resolve_of_noDotDot hnd hq)
+theorem fileAppend_frame (t : Tree) (s text : Str) (q : Path) (hnd : noDotDot s = true) (hq : q ≠ components s) :
+    find? (fileAppend t s text).1 q = find? t q := fileAppend_frame_resolve t s text q (ne_resolve_of_noDotDot hnd hq)
+theorem fileOverwrite_frame (t : Tree) (s text : Str) (q : Path) (hnd : noDotDot s = true) (hq : q ≠ components s) :
+    find? (fileOverwrite t s text).1 q = find? t q :=
+  fileOverwrite_frame_resolve t s text q (ne_resolve_of_noDotDot hnd hq)
+theorem dirCreate_frame (t : Tree) (s : Str) (q : Path) (hnd : noDotDot s = true) (hq : q ≠ components s) :
+    find? (dirCreate t s).1 q = find? t q := dirCreate_frame_resolve t s q (ne_resolve_of_noDotDot hnd hq)
+theorem dirRemove_frame (t : Tree) (s : Str) (q : Path) (hnd : noDotDot s = true) (hq : q ≠ components s) :
+    find? (dirRemove t s).1 q = find? t q := dirRemove_frame_resolve t s q (ne_resolve_of_noDotDot hnd hq)
+
+/-! ### `DIRECTORY_CREATE_ALL` -/
+
+/-- the directories `DIRECTORY_CREATE_ALL` makes where nothing is: all it visits when it succeeds; when
+it meets a file, those visited before the file (its ancestors left out, see `Fs.dirCreateAll`) -/
+def dirCreateAllMakes (t : Tree) (s : Str) : List Path :=
+  match (mkdirVisits [] (components s)).find? (fun q => isFile t q) with
+  | none => mkdirVisits [] (components s)
+  | some f =>
+    ((mkdirVisits [] (components s)).takeWhile fun q => !isFile t q).filter fun q => !(q.isPrefixOf f)
+
+theorem dirCreateAll_fst (t : Tree) (s : Str) :
+    (dirCreateAll t s).1 = (dirCreateAllMakes t s).foldl mkdirStep t := by
+  unfold dirCreateAll dirCreateAllMakes
+  simp only []
+  cases List.find? (fun q => isFile t q) (mkdirVisits [] (components s)) <;> rfl
+
+theorem dirCreateAll_snd (t : Tree) (s : Str) :
+    (dirCreateAll t s).2 = !(mkdirVisits [] (components s)).any (fun q => isFile t q) := by
+  unfold dirCreateAll
+  simp only []
+  cases hf : List.find? (fun q => isFile t q) (mkdirVisits [] (components s)) with
+  | none =>
+    rw [List.find?_eq_none] at hf
+    have : (mkdirVisits [] (components s)).any (fun q => isFile t q) = false := by simpa using hf
+    simp [this]
+  | some f =>
+    have : (mkdirVisits [] (components s)).any (fun q => isFile t q) = true := by
+      rw [List.any_eq_true]
+      exact ⟨f, List.mem_of_find?_eq_some hf, List.find?_some hf⟩
+    simp [this]
+
+theorem dirCreateAllMakes_sub (t : Tree) (s : Str) :
+    ∀ q ∈ dirCreateAllMakes t s, q ∈ mkdirVisits [] (components s) := by
+  unfold dirCreateAllMakes
+  intro q hq
+  split at hq
+  · exact hq
+  · exact (List.takeWhile_sublist _).subset (List.mem_filter.1 hq).1
+
+/-- `DIRECTORY_CREATE_ALL` succeeds exactly when none of the directories it visits is a file -/
+theorem dirCreateAll_success_iff_visits (t : Tree) (s : Str) :
+    (dirCreateAll t s).2 = true ↔ ∀ q ∈ mkdirVisits [] (components s), isFile t q = false := by
+  rw [dirCreateAll_snd]
+  simp
+
+theorem dirCreateAllMakes_of_success (t : Tree) (s : Str) (h : (dirCreateAll t s).2 = true) :
+    dirCreateAllMakes t s = mkdirVisits [] (components s) := by
+  have hall := (dirCreateAll_success_iff_visits t s).1 h
+  unfold dirCreateAllMakes
+  cases hf : List.find? (fun q => isFile t q) (mkdirVisits [] (components s)) with
+  | none => rfl
+  | some f =>
+    have := hall f (List.mem_of_find?_eq_some hf)
+    have h2 := List.find?_some hf
+    simp [this] at h2
+
+theorem dirCreateAll_find? (t : Tree) (s : Str) (q : Path) :
+    find? (dirCreateAll t s).1 q =
+      if q ∈ dirCreateAllMakes t s ∧ find? t q = none then some .dir else find? t q := by
+  rw [dirCreateAll_fst]
+  exact find?_foldl_mkdir _ (fun a ha => ne_nil_of_mem_mkdirVisits (dirCreateAllMakes_sub t s a ha)) t q
+
+/-- `DIRECTORY_CREATE_ALL`, success: exactly the visited paths at which nothing was change, and they
+become directories; every other path (and every existing entry) is as before -/
+theorem dirCreateAll_frame_visits (t : Tree) (s : Str) (q : Path) (h : (dirCreateAll t s).2 = true) :
+    find? (dirCreateAll t s).1 q =
+      if q ∈ mkdirVisits [] (components s) ∧ find? t q = none then some .dir else find? t q := by
+  rw [dirCreateAll_find?, dirCreateAllMakes_of_success t s h]
+
+/-- `DIRECTORY_CREATE_ALL`, success or not: an entry is as before, or it is a new directory at a visited
+path at which nothing was -/
+theorem dirCreateAll_only_adds_dirs (t : Tree) (s : Str) (q : Path) :
+    find? (dirCreateAll t s).1 q = find? t q ∨
+      (q ∈ mkdirVisits [] (components s) ∧ find? t q = none ∧ find? (dirCreateAll t s).1 q = some .dir) := by
+  rw [dirCreateAll_find?]
+  by_cases hc : q ∈ dirCreateAllMakes t s ∧ find? t q = none
+  · right; rw [if_pos hc]; exact ⟨dirCreateAllMakes_sub t s q hc.1, hc.2, rfl⟩
+  · left; rw [if_neg hc]
+
+/-- … in particular what exists stays, and a directory stays a directory -/
+theorem dirCreateAll_keeps (t : Tree) (s : Str) (q : Path) (n : FsNode) (h : find? t q = some n) :
+    find? (dirCreateAll t s).1 q = some n := by
+  rcases dirCreateAll_only_adds_dirs t s q with h' | ⟨_, h', _⟩
+  · rw [h', h]
+  · rw [h] at h'; cases h'
+
+theorem dirCreateAll_eq (t : Tree) (s : Str) (hnd : noDotDot s = true) :
+    dirCreateAll t s =
+      if (prefixes (components s)).any (fun q => isFile t q) then (t, false)
+      else ((prefixes (components s)).foldl mkdirStep t, true) := by
+  rw [dirCreateAll_eq_lexical t s hnd]; rfl
+
+/-- `DIRECTORY_CREATE_ALL` without `..`: exactly the prefixes of the named path that did not exist change,
+and they become directories; every other path (and every existing entry) is as before -/
+theorem dirCreateAll_frame (t : Tree) (s : Str) (q : Path) (hnd : noDotDot s = true) :
+    find? (dirCreateAll t s).1 q =
+      if q ∈ prefixes (components s) ∧ find? t q = none ∧ (dirCreateAll t s).2 = true then some .dir
+      else find? t q := by
+  rw [dirCreateAll_eq t s hnd]
+  split
+  · simp
+  · simp only [and_true]
+    exact find?_foldl_mkdir _ (fun a ha => ne_nil_of_mem_prefixes ha) t q
+
+/-! ### `DIRECTORY_REMOVE_ALL` -/
+
+/-- on a path other than the root DIRECTORY_REMOVE_ALL succeeds exactly on a non-empty path string that
+names a directory -/
+theorem dirRemoveAll_nonroot_success_iff (t : Tree) (s : Str) (p : Path) (hr : resolve t s = some p) (hroot : p ≠ []) :
+    (dirRemoveAll t s).2 = true ↔ s ≠ [] ∧ isDir t p = true := by
+  rw [dirRemoveAll_on, onResolved_some hr, dirRemoveAllAt_success_iff, ← isDir_iff]
+  constructor
+  · rintro ⟨h1, h2, _⟩; exact ⟨h1, h2⟩
+  · rintro ⟨h1, h2⟩
+    refine ⟨h1, h2, ?_⟩
+    by_cases hdd : endsDotDot s = true
+    · exact Or.inl (dotdot_unresolved_after t s p hdd hr hroot)
+    · exact Or.inr ⟨hroot, by simpa using hdd⟩
+
+/-- for `DIRECTORY_REMOVE_ALL` failure leaves the tree as it was on every path but the root (see
+`dirRemoveAll_root_resolve`) -/
+theorem dirRemoveAll_failure_unchanged_resolve (t : Tree) (s : Str) (hroot : s = [] ∨ resolve t s ≠ some [])
+    (h : (dirRemoveAll t s).2 = false) : (dirRemoveAll t s).1 = t := by
+  cases hr : resolve t s with
+  | none => rw [dirRemoveAll_on, onResolved_none hr]
+  | some p =>
+    have hp : s = [] ∨ p ≠ [] := by
+      rcases hroot with h0 | h0
+      · exact Or.inl h0
+      · exact Or.inr fun e => h0 (by rw [hr, e])
+    by_cases hg : s ≠ [] ∧ isDir t p = true
+    · have hpne : p ≠ [] := hp.resolve_left hg.1
+      rw [(dirRemoveAll_nonroot_success_iff t s p hr hpne).2 hg] at h; cases h
+    · rw [dirRemoveAll_on, onResolved_some hr]
+      unfold dirRemoveAllAt
+      have : (s == [] || !isDir t p) = true := by
+        by_cases hs : s = []
+        · simp [hs]
+        · have : isDir t p = false := by simpa [hs] using hg
+          simp [this]
+      simp only [this, ↓reduceIte]
+
+theorem dirRemoveAll_failure_unchanged (t : Tree) (s : Str) (hnd : noDotDot s = true)
+    (hroot : s = [] ∨ components s ≠ [])
+    (h : (dirRemoveAll t s).2 = false) : (dirRemoveAll t s).1 = t := by
+  refine dirRemoveAll_failure_unchanged_resolve t s ?_ h
+  rcases hroot with h0 | h0
+  · exact Or.inl h0
+  · exact Or.inr (ne_resolve_of_noDotDot hnd (Ne.symm h0))
+
+/-- `DIRECTORY_REMOVE_ALL` on a path other than the root: on success exactly the paths below the resolved
+directory disappear; every other path — the directory itself aside, see `dirRemoveAll_at_resolved` — is as
+before -/
+theorem dirRemoveAll_frame_resolve (t : Tree) (s : Str) (p q : Path) (hr : resolve t s = some p) (hroot : p ≠ [])
+    (hq : q ≠ p) :
+    find? (dirRemoveAll t s).1 q =
+      if (dirRemoveAll t s).2 = true ∧ p.isPrefixOf q = true then none else find? t q := by
+  have hg := dirRemoveAll_nonroot_success_iff t s p hr hroot
+  have hf := dirRemoveAllAt_frame t s p q hq
+  rw [dirRemoveAll_on, onResolved_some hr] at hg ⊢
+  rw [hf]
+  by_cases hgd : s ≠ [] ∧ isDir t p = true
+  · simp [hgd, hg.2 hgd]
+  · have : ¬ (dirRemoveAllAt t s p).2 = true := fun h => hgd (hg.1 h)
+    simp [hgd, this]
+
+/-- … and the directory itself is removed, unless the path string went (with `..`) through one of the
+directories below it: then it stays, empty (`DIRECTORY_REMOVE_ALL("d/e/..")`, `("d/e/../../d")`) -/
+theorem dirRemoveAll_at_resolved (t : Tree) (s : Str) (p : Path) (hr : resolve t s = some p) (hroot : p ≠ [])
+    (h : (dirRemoveAll t s).2 = true) :
+    find? (dirRemoveAll t s).1 p = if resolve (eraseBelow t p) s = none then some .dir else none := by
+  rw [dirRemoveAll_on, onResolved_some hr] at h ⊢
+  obtain ⟨h1, h2, h3⟩ := (dirRemoveAllAt_success_iff t s p).1 h
+  unfold dirRemoveAllAt
+  have hg : (s == [] || !isDir t p) = false := by simp [h1, (isDir_iff t p).2 h2]
+  simp only [hg, Bool.false_eq_true, ↓reduceIte]
+  cases hres : resolve (eraseBelow t p) s with
+  | none =>
+    simp only [↓reduceIte]
+    rw [find?_eraseBelow]; simp [hroot, h2]
+  | some p' =>
+    rcases h3 with h3 | h3
+    · rw [hres] at h3; cases h3
+    · have hc : (p == [] || endsDotDot s) = false := by simp [h3.1, h3.2]
+      simp only [hc, Bool.false_eq_true, ↓reduceIte, reduceCtorEq]
+      rw [find?_eraseUnder]; simp [hroot, isPrefixOf_self]
+
+theorem dirRemoveAll_frame (t : Tree) (s : Str) (q : Path) (hnd : noDotDot s = true) (hroot : components s ≠ []) :
+    find? (dirRemoveAll t s).1 q =
+      if (dirRemoveAll t s).2 = true ∧ (components s).isPrefixOf q = true then none else find? t q := by
+  have hr := resolve_eq_components t s hnd
+  by_cases hq : q = components s
+  · subst hq
+    by_cases h : (dirRemoveAll t s).2 = true
+    · rw [dirRemoveAll_at_resolved t s _ hr hroot h, resolve_eq_components _ s hnd]
+      simp [h, isPrefixOf_self]
+    · have h' : (dirRemoveAll t s).2 = false := by simpa using h
+      rw [dirRemoveAll_failure_unchanged t s hnd (Or.inr hroot) h']
+      simp [h']
+  · exact dirRemoveAll_frame_resolve t s _ q hr hroot hq
+
+/-- a path that does not lie under the resolved directory is untouched by `DIRECTORY_REMOVE_ALL` -/
+theorem dirRemoveAll_frame_outside_resolve (t : Tree) (s : Str) (p q : Path) (hr : resolve t s = some p)
+    (hroot : p ≠ []) (hq : p.isPrefixOf q = false) : find? (dirRemoveAll t s).1 q = find? t q := by
+  have hne : q ≠ p := by
+    intro e; rw [e, isPrefixOf_self] at hq; cases hq
+  rw [dirRemoveAll_frame_resolve t s p q hr hroot hne]; simp [hq]
+
+theorem dirRemoveAll_frame_outside (t : Tree) (s : Str) (q : Path) (hnd : noDotDot s = true)
+    (hroot : components s ≠ []) (hq : (components s).isPrefixOf q = false) :
+    find? (dirRemoveAll t s).1 q = find? t q :=
+  dirRemoveAll_frame_outside_resolve t s _ q (resolve_eq_components t s hnd) hroot hq
+
+/-- the exception: `DIRECTORY_REMOVE_ALL` on a path string that names the sandbox root empties the tree.
+For `"."`, `"/"`, `"./"` … it then reports failure (src: `remove_dir_all(".")` removes the contents, then
+fails on the root itself); for `d/..` it reports success (the final `rmdir("d/..")` is `ENOENT` — `d` is
+gone — which `remove_dir_all` takes as done) -/
+theorem dirRemoveAll_root_resolve (t : Tree) (s : Str) (hs : s ≠ []) (hr : resolve t s = some []) :
+    (dirRemoveAll t s).1 = [] ∧ ((dirRemoveAll t s).2 = true ↔ resolve [] s = none) := by
+  rw [dirRemoveAll_on, onResolved_some hr]
+  unfold dirRemoveAllAt
+  have hg : (s == [] || !isDir t []) = false := by simp [hs, isDir_nil]
+  simp only [hg, Bool.false_eq_true, ↓reduceIte, eraseBelow_nil]
+  cases resolve [] s with
+  | none => simp
+  | some p' => simp
+
+theorem dirRemoveAll_root (t : Tree) (s : Str) (hnd : noDotDot s = true) (hs : s ≠ []) (hroot : components s = []) :
+    dirRemoveAll t s = ([], false) := by
+  rw [dirRemoveAll_eq_lexical t s hnd]
+  unfold Lexical.dirRemoveAll
+  simp [hs, hroot]
+
+/-! ## when an operation succeeds, and what it leaves -/
+
+theorem fileCreate_success_iff_resolve (t : Tree) (s : Str) :
+    (fileCreate t s).2 = true ↔
+      ∃ p, resolve t s = some p ∧ s ≠ [] ∧ dirOnly s = false ∧ p ≠ [] ∧ find? t p = none ∧
+        isDir t (parent p) = true := by
+  rw [fileCreate_on, onResolved_flag]; simp only [fileCreateAt_success_iff]
+
+theorem fileCreate_success_iff (t : Tree) (s : Str) (hnd : noDotDot s = true) :
+    (fileCreate t s).2 = true ↔
+      s ≠ [] ∧ trailingSlash s = false ∧ components s ≠ [] ∧ find? t (components s) = none ∧
+        isDir t (parent (components s)) = true := by
+  rw [fileCreate_success_iff_resolve, resolve_eq_components t s hnd, dirOnly_of_noDotDot hnd]; simp
+
+/-- FILE_CREATE creates an empty file, and only where nothing exists -/
+theorem create_only_if_absent_resolve (t : Tree) (s : Str) (h : (fileCreate t s).2 = true) :
+    ∃ p, resolve t s = some p ∧ find? t p = none ∧ find? (fileCreate t s).1 p = some (.file []) := by
+  rw [fileCreate_on] at h ⊢
+  obtain ⟨p, hr, hp⟩ := (onResolved_flag t s _).1 h
+  rw [onResolved_some hr]
+  exact ⟨p, hr, fileCreateAt_only_if_absent t s p hp⟩
+
+theorem create_only_if_absent (t : Tree) (s : Str) (hnd : noDotDot s = true) (h : (fileCreate t s).2 = true) :
+    find? t (components s) = none ∧ find? (fileCreate t s).1 (components s) = some (.file []) := by
+  obtain ⟨p, hr, hp⟩ := create_only_if_absent_resolve t s h
+  rw [resolve_eq_components t s hnd] at hr
+  cases hr; exact hp
+
+theorem dirCreate_success_iff_resolve (t : Tree) (s : Str) :
+    (dirCreate t s).2 = true ↔
+      ∃ p, resolve t s = some p ∧ s ≠ [] ∧ endsDotDot s = false ∧ p ≠ [] ∧ find? t p = none ∧
+        isDir t (parent p) = true := by
+  rw [dirCreate_on, onResolved_flag]; simp only [dirCreateAt_success_iff]
+
+theorem dirCreate_success_iff (t : Tree) (s : Str) (hnd : noDotDot s = true) :
+    (dirCreate t s).2 = true ↔
+      s ≠ [] ∧ components s ≠ [] ∧ find? t (components s) = none ∧ isDir t (parent (components s)) = true := by
+  rw [dirCreate_success_iff_resolve, resolve_eq_components t s hnd, endsDotDot_of_noDotDot hnd]; simp
+
+theorem dirCreate_only_if_absent_resolve (t : Tree) (s : Str) (h : (dirCreate t s).2 = true) :
+    ∃ p, resolve t s = some p ∧ find? t p = none ∧ find? (dirCreate t s).1 p = some .dir := by
+  rw [dirCreate_on] at h ⊢
+  obtain ⟨p, hr, hp⟩ := (onResolved_flag t s _).1 h
+  rw [onResolved_some hr]
+  exact ⟨p, hr, dirCreateAt_only_if_absent t s p hp⟩
+
+theorem dirCreate_only_if_absent (t : Tree) (s : Str) (hnd : noDotDot s = true) (h : (dirCreate t s).2 = true) :
+    find? t (components s) = none ∧ find? (dirCreate t s).1 (components s) = some .dir := by
+  obtain ⟨p, hr, hp⟩ := dirCreate_only_if_absent_resolve t s h
+  rw [resolve_eq_components t s hnd] at hr
+  cases hr; exact hp
+
+/-- FILE_APPEND succeeds exactly on an existing file (named by a string that can name a file) -/
+theorem fileAppend_success_iff_resolve (t : Tree) (s text : Str) :
+    (fileAppend t s text).2 = true ↔
+      ∃ p, resolve t s = some p ∧ s ≠ [] ∧ dirOnly s = false ∧ ∃ c, find? t p = some (.file c) := by
+  rw [fileAppend_on, onResolved_flag]; simp only [fileAppendAt_success_iff]
+
+theorem fileAppend_success_iff (t : Tree) (s text : Str) (hnd : noDotDot s = true) :
+    (fileAppend t s text).2 = true ↔
+      s ≠ [] ∧ trailingSlash s = false ∧ ∃ c, find? t (components s) = some (.file c) := by
+  rw [fileAppend_success_iff_resolve, resolve_eq_components t s hnd, dirOnly_of_noDotDot hnd]; simp
+
+theorem fileOverwrite_success_iff_resolve (t : Tree) (s text : Str) :
+    (fileOverwrite t s text).2 = true ↔
+      ∃ p, resolve t s = some p ∧ s ≠ [] ∧ dirOnly s = false ∧ ∃ c, find? t p = some (.file c) := by
+  rw [fileOverwrite_on, onResolved_flag]; simp only [fileOverwriteAt_success_iff]
+
+theorem fileOverwrite_success_iff (t : Tree) (s text : Str) (hnd : noDotDot s = true) :
+    (fileOverwrite t s text).2 = true ↔
+      s ≠ [] ∧ trailingSlash s = false ∧ ∃ c, find? t (components s) = some (.file c) := by
+  rw [fileOverwrite_success_iff_resolve, resolve_eq_components t s hnd, dirOnly_of_noDotDot hnd]; simp
+
+theorem isFileS_iff_resolve (t : Tree) (s : Str) :
+    isFileS t s = true ↔
+      ∃ p, resolve t s = some p ∧ s ≠ [] ∧ dirOnly s = false ∧ ∃ c, find? t p = some (.file c) := by
+  unfold isFileS
+  cases hr : resolve t s with
+  | none => simp
+  | some p => simp [isFileAt_iff]
+
+/-- FILE_APPEND / FILE_OVERWRITE need an existing file; on success the content is `old ++ text` / `text` -/
+theorem append_overwrite_need_existing_file_resolve (t : Tree) (s text : Str) :
+    ((fileAppend t s text).2 = true ↔ isFileS t s = true) ∧
+    ((fileOverwrite t s text).2 = true ↔ isFileS t s = true) ∧
+    (∀ p old, resolve t s = some p → s ≠ [] → dirOnly s = false → find? t p = some (.file old) →
+      find? (fileAppend t s text).1 p = some (.file (old ++ text)) ∧
+      find? (fileOverwrite t s text).1 p = some (.file text)) := by
+  refine ⟨by rw [fileAppend_success_iff_resolve, isFileS_iff_resolve],
+    by rw [fileOverwrite_success_iff_resolve, isFileS_iff_resolve], ?_⟩
+  intro p old hr h1 h2 h3
+  rw [fileAppend_on, fileOverwrite_on, onResolved_some hr, onResolved_some hr]
+  exact appendAt_overwriteAt_contents t s p text old h1 h2 h3
+
+theorem append_overwrite_need_existing_file (t : Tree) (s text : Str) (hnd : noDotDot s = true) :
+    ((fileAppend t s text).2 = true ↔ isFileS t s = true) ∧
+    ((fileOverwrite t s text).2 = true ↔ isFileS t s = true) ∧
+    (∀ old, s ≠ [] → trailingSlash s = false → find? t (components s) = some (.file old) →
+      find? (fileAppend t s text).1 (components s) = some (.file (old ++ text)) ∧
+      find? (fileOverwrite t s text).1 (components s) = some (.file text)) := by
+  obtain ⟨h1, h2, h3⟩ := append_overwrite_need_existing_file_resolve t s text
+  refine ⟨h1, h2, fun old hs hts hf => ?_⟩
+  exact h3 _ old (resolve_eq_components t s hnd) hs (by rw [dirOnly_of_noDotDot hnd]; exact hts) hf
+
+/-! ## failure leaves the tree as it was -/
+
+theorem fileCreate_failure_unchanged (t : Tree) (s : Str) (h : (fileCreate t s).2 = false) :
+    (fileCreate t s).1 = t := by
+  rw [fileCreate_on] at h ⊢
+  exact onResolved_unchanged t s _ (fun p _ => fileCreateAt_failure_unchanged t s p) h
+
+theorem fileRemove_failure_unchanged (t : Tree) (s : Str) (h : (fileRemove t s).2 = false) :
+    (fileRemove t s).1 = t := by
+  rw [fileRemove_on] at h ⊢
+  exact onResolved_unchanged t s _ (fun p _ => fileRemoveAt_failure_unchanged t s p) h
+
+theorem fileAppend_failure_unchanged (t : Tree) (s text : Str) (h : (fileAppend t s text).2 = false) :
+    (fileAppend t s text).1 = t := by
+  rw [fileAppend_on] at h ⊢
+  exact onResolved_unchanged t s _ (fun p _ => fileAppendAt_failure_unchanged t s p text) h
+
+theorem fileOverwrite_failure_unchanged (t : Tree) (s text : Str) (h : (fileOverwrite t s text).2 = false) :
+    (fileOverwrite t s text).1 = t := by
+  rw [fileOverwrite_on] at h ⊢
+  exact onResolved_unchanged t s _ (fun p _ => fileOverwriteAt_failure_unchanged t s p text) h
+
+theorem dirCreate_failure_unchanged (t : Tree) (s : Str) (h : (dirCreate t s).2 = false) :
+    (dirCreate t s).1 = t := by
+  rw [dirCreate_on] at h ⊢
+  exact onResolved_unchanged t s _ (fun p _ => dirCreateAt_failure_unchanged t s p) h
+
+theorem dirRemove_failure_unchanged (t : Tree) (s : Str) (h : (dirRemove t s).2 = false) :
+    (dirRemove t s).1 = t := by
+  rw [dirRemove_on] at h ⊢
+  exact onResolved_unchanged t s _ (fun p _ => dirRemoveAt_failure_unchanged t s p) h
+
+/-- without `..` a failing `DIRECTORY_CREATE_ALL` has made nothing. (With `..` it may have:
+`dirCreateAll_only_adds_dirs` is what holds then, and `Demo.createAll_partial` shows it happen.) -/
+theorem dirCreateAll_failure_unchanged (t : Tree) (s : Str) (hnd : noDotDot s = true)
+    (h : (dirCreateAll t s).2 = false) : (dirCreateAll t s).1 = t := by
+  rw [dirCreateAll_eq t s hnd] at *; split <;> simp_all
+
+/-! ## reading -/
+
+theorem fileRead_eq_resolve (t : Tree) (s : Str) (c : Str) :
+    fileRead t s = some c ↔
+      ∃ p, resolve t s = some p ∧ s ≠ [] ∧ dirOnly s = false ∧ find? t p = some (.file c) := by
+  unfold fileRead
+  cases hr : resolve t s with
+  | none => simp
+  | some p => simp [fileReadAt_eq]
+
+theorem fileRead_eq (t : Tree) (s : Str) (c : Str) (hnd : noDotDot s = true) :
+    fileRead t s = some c ↔ s ≠ [] ∧ trailingSlash s = false ∧ find? t (components s) = some (.file c) := by
+  rw [fileRead_eq_resolve, resolve_eq_components t s hnd, dirOnly_of_noDotDot hnd]; simp
+
+/-- writing to a file, or creating one, changes no directory: every path string resolves as before -/
+theorem resolve_after_file_ops (t : Tree) (s text : Str) (s' : Str) :
+    resolve (fileCreate t s).1 s' = resolve t s' ∧ resolve (fileAppend t s text).1 s' = resolve t s' ∧
+    resolve (fileOverwrite t s text).1 s' = resolve t s' := by
+  refine ⟨resolve_congr (fun q => ?_) s', resolve_congr (fun q => ?_) s', resolve_congr (fun q => ?_) s'⟩
+  · rw [fileCreate_on]; unfold onResolved
+    cases resolve t s with
+    | none => rfl
+    | some p =>
+      simp only []
+      by_cases hc : (fileCreateAt t s p).2 = true
+      · have h1 := (fileCreateAt_success_iff t s p).1 hc
+        have : fileCreateAt t s p = (put t p (.file []), true) := by
+          have hcond : (s == [] || dirOnly s || p == [] || pathExists t p || !isDir t (parent p)) = false := by
+            simp [h1.1, h1.2.1, h1.2.2.1, h1.2.2.2.2, pathExists, h1.2.2.2.1]
+          unfold fileCreateAt; simp only [hcond, Bool.false_eq_true, ↓reduceIte]
+        rw [this]
+        exact isDir_put_file t p [] q (not_isDir_of_absent h1.2.2.2.1)
+      · rw [fileCreateAt_failure_unchanged t s p (by simpa using hc)]
+  · rw [fileAppend_on]; unfold onResolved
+    cases resolve t s with
+    | none => rfl
+    | some p =>
+      simp only []
+      unfold fileAppendAt
+      split
+      · rfl
+      · split
+        · next c hc => exact isDir_put_file t p _ q (not_isDir_of_file hc)
+        · rfl
+  · rw [fileOverwrite_on]; unfold onResolved
+    cases resolve t s with
+    | none => rfl
+    | some p =>
+      simp only []
+      unfold fileOverwriteAt
+      split
+      · rfl
+      · split
+        · next c hc => exact isDir_put_file t p _ q (not_isDir_of_file hc)
+        · rfl
+
+/-- FILE_READ returns exactly what was last written -/
+theorem read_returns_exact_contents (t : Tree) (s text : Str) :
+    ((fileOverwrite t s text).2 = true → fileRead (fileOverwrite t s text).1 s = some text) ∧
+    (∀ old, fileRead t s = some old → fileRead (fileAppend t s text).1 s = some (old ++ text)) ∧
+    ((fileCreate t s).2 = true → fileRead (fileCreate t s).1 s = some []) := by
+  obtain ⟨rc, ra, ro⟩ := resolve_after_file_ops t s text s
+  refine ⟨?_, ?_, ?_⟩
+  · intro h
+    obtain ⟨p, hr, h1, h2, c, hc⟩ := (fileOverwrite_success_iff_resolve t s text).1 h
+    rw [fileRead_eq_resolve]
+    exact ⟨p, by rw [ro, hr], h1, h2, ((append_overwrite_need_existing_file_resolve t s text).2.2 p c hr h1 h2 hc).2⟩
+  · intro old h
+    obtain ⟨p, hr, h1, h2, hc⟩ := (fileRead_eq_resolve t s old).1 h
+    rw [fileRead_eq_resolve]
+    exact ⟨p, by rw [ra, hr], h1, h2, ((append_overwrite_need_existing_file_resolve t s text).2.2 p old hr h1 h2 hc).1⟩
+  · intro h
+    obtain ⟨p, hr, h1, h2, _⟩ := (fileCreate_success_iff_resolve t s).1 h
+    obtain ⟨p', hr', _, hc⟩ := create_only_if_absent_resolve t s h
+    rw [hr] at hr'; cases hr'
+    rw [fileRead_eq_resolve]
+    exact ⟨p, by rw [rc, hr], h1, h2, hc⟩
+
+/-- a successful append implies the file was readable, and reads back as `old ++ text` -/
+theorem read_after_append (t : Tree) (s text : Str) (h : (fileAppend t s text).2 = true) :
+    ∃ old, fileRead t s = some old ∧ fileRead (fileAppend t s text).1 s = some (old ++ text) := by
+  obtain ⟨p, hr, h1, h2, c, hc⟩ := (fileAppend_success_iff_resolve t s text).1 h
+  have hrd : fileRead t s = some c := (fileRead_eq_resolve t s c).2 ⟨p, hr, h1, h2, hc⟩
+  exact ⟨c, hrd, (read_returns_exact_contents t s text).2.1 c hrd⟩
+
+/-- reading depends on the tree only through the path the string resolves to and `find?` there -/
+theorem fileRead_congr_resolve (t t' : Tree) (s : Str) (hr : resolve t' s = resolve t s)
+    (h : ∀ p, resolve t s = some p → find? t' p = find? t p) : fileRead t' s = fileRead t s := by
+  unfold fileRead
+  rw [hr]
+  cases hp : resolve t s with
+  | none => rfl
+  | some p => simp only []; unfold fileReadAt; rw [h p hp]
+
+theorem fileRead_congr (t t' : Tree) (s : Str) (hnd : noDotDot s = true)
+    (h : find? t' (components s) = find? t (components s)) : fileRead t' s = fileRead t s := by
+  apply fileRead_congr_resolve
+  · rw [resolve_eq_components t s hnd, resolve_eq_components t' s hnd]
+  · intro p hp
+    rw [resolve_eq_components t s hnd] at hp; cases hp; exact h
+
+/-- a directory that appears where nothing was: whatever resolved before resolves to the same path -/
+theorem resolve_after_dirCreate (t : Tree) (s s' : Str) (p' : Path) (h : resolve t s' = some p') :
+    resolve (dirCreate t s).1 s' = some p' := by
+  refine resolve_mono (t' := t) (fun q hq => ?_) s' p' h
+  rw [dirCreate_on]; unfold onResolved
+  cases resolve t s with
+  | none => exact hq
+  | some p =>
+    simp only []
+    by_cases hc : (dirCreateAt t s p).2 = true
+    · by_cases hqp : q = p
+      · rw [hqp]; exact (isDir_iff _ _).2 (dirCreateAt_only_if_absent t s p hc).2
+      · rw [isDir_congr (dirCreateAt_frame t s p q hqp)]; exact hq
+    · rw [dirCreateAt_failure_unchanged t s p (by simpa using hc)]; exact hq
+
+/-- reading a file is unaffected by operations on other paths: `s'` resolves to `p'`, and `s` does not
+resolve to `p'`. (For FILE_REMOVE the resolution of `s'` is unaffected as well; DIRECTORY_REMOVE can
+take away a directory `s'` passes through with `..` — see `read_after_dirRemove_other`.) -/
+theorem read_unaffected_by_other_paths_resolve (t : Tree) (s s' text : Str) (p' : Path)
+    (hr' : resolve t s' = some p') (h : resolve t s ≠ some p') :
+    fileRead (fileCreate t s).1 s' = fileRead t s' ∧
+    fileRead (fileRemove t s).1 s' = fileRead t s' ∧
+    fileRead (fileAppend t s text).1 s' = fileRead t s' ∧
+    fileRead (fileOverwrite t s text).1 s' = fileRead t s' ∧
+    fileRead (dirCreate t s).1 s' = fileRead t s' := by
+  obtain ⟨rc, ra, ro⟩ := resolve_after_file_ops t s text s'
+  have hone : ∀ p, resolve t s' = some p → p = p' := fun p hp => by rw [hr'] at hp; exact (Option.some.inj hp).symm
+  refine ⟨fileRead_congr_resolve _ _ _ rc (fun p hp => ?_), fileRead_congr_resolve _ _ _ ?_ (fun p hp => ?_),
+    fileRead_congr_resolve _ _ _ ra (fun p hp => ?_), fileRead_congr_resolve _ _ _ ro (fun p hp => ?_),
+    fileRead_congr_resolve _ _ _ ?_ (fun p hp => ?_)⟩
+  · rw [hone p hp]; exact fileCreate_frame_resolve t s _ h
+  · apply resolve_congr
+    intro q
+    rw [fileRemove_on]; unfold onResolved
+    cases resolve t s with
+    | none => rfl
+    | some p =>
+      simp only []
+      unfold fileRemoveAt
+      split
+      · next hc =>
+        simp only [Bool.and_eq_true] at hc
+        obtain ⟨c, hfile⟩ := (isFile_iff t p).1 hc.2
+        exact isDir_erase_of_not_dir t p q (not_isDir_of_file hfile)
+      · rfl
+  · rw [hone p hp]; exact fileRemove_frame_resolve t s _ h
+  · rw [hone p hp]; exact fileAppend_frame_resolve t s text _ h
+  · rw [hone p hp]; exact fileOverwrite_frame_resolve t s text _ h
+  · rw [hr']; exact resolve_after_dirCreate t s s' p' hr'
+  · rw [hone p hp]; exact dirCreate_frame_resolve t s _ h
+
+/-- DIRECTORY_REMOVE of another path: what can be read afterwards is what could be read before (a path
+string with `..` through the removed directory no longer resolves) -/
+theorem read_after_dirRemove_other (t : Tree) (s s' : Str) (p' : Path)
+    (hr' : resolve t s' = some p') (h : resolve t s ≠ some p') :
+    fileRead (dirRemove t s).1 s' = fileRead t s' ∨ resolve (dirRemove t s).1 s' = none := by
+  cases hr2 : resolve (dirRemove t s).1 s' with
+  | none => exact Or.inr rfl
+  | some p2 =>
+    left
+    have hmono : resolve t s' = some p2 := by
+      refine resolve_mono (t' := (dirRemove t s).1) (fun q hq => ?_) s' p2 hr2
+      by_cases hqs : resolve t s = some q
+      · rw [dirRemove_on, onResolved_some hqs] at hq
+        by_cases hc : (dirRemoveAt t s q).2 = true
+        · have := (isDir_iff _ _).1 hq
+          rw [dirRemoveAt_then_absent t s q hc] at this; cases this
+        · rw [dirRemoveAt_failure_unchanged t s q (by simpa using hc)] at hq; exact hq
+      · rw [isDir_congr (dirRemove_frame_resolve t s q hqs)] at hq; exact hq
+    rw [hr'] at hmono; cases hmono
+    exact fileRead_congr_resolve _ _ _ (by rw [hr2, hr']) (fun p hp => by
+      rw [hr'] at hp; cases hp; exact dirRemove_frame_resolve t s _ h)
+
+/-- the form before `..`: both strings without `..`, naming different paths -/
+theorem read_unaffected_by_other_paths (t : Tree) (s s' text : Str) (hnd : noDotDot s = true)
+    (hnd' : noDotDot s' = true) (h : components s' ≠ components s) :
+    fileRead (fileCreate t s).1 s' = fileRead t s' ∧
+    fileRead (fileRemove t s).1 s' = fileRead t s' ∧
+    fileRead (fileAppend t s text).1 s' = fileRead t s' ∧
+    fileRead (fileOverwrite t s text).1 s' = fileRead t s' ∧
+    fileRead (dirCreate t s).1 s' = fileRead t s' ∧
+    fileRead (dirRemove t s).1 s' = fileRead t s' :=
+  ⟨fileRead_congr _ _ _ hnd' (fileCreate_frame t s _ hnd h), fileRead_congr _ _ _ hnd' (fileRemove_frame t s _ hnd h),
+   fileRead_congr _ _ _ hnd' (fileAppend_frame t s text _ hnd h),
+   fileRead_congr _ _ _ hnd' (fileOverwrite_frame t s text _ hnd h),
+   fileRead_congr _ _ _ hnd' (dirCreate_frame t s _ hnd h), fileRead_congr _ _ _ hnd' (dirRemove_frame t s _ hnd h)⟩
+
+/-- DIRECTORY_CREATE_ALL changes the contents of no file (it only adds directories where nothing was):
+a path string that resolved before reads the same. (One that did not resolve may resolve afterwards:
+`DIRECTORY_CREATE_ALL("new")` makes `new/../f` a name of `f`.) -/
+theorem read_unaffected_by_dirCreateAll_resolve (t : Tree) (s s' : Str) (hr : resolve t s' ≠ none) :
+    fileRead (dirCreateAll t s).1 s' = fileRead t s' := by
+  cases hp : resolve t s' with
+  | none => exact absurd hp hr
+  | some p' =>
+    have hr2 : resolve (dirCreateAll t s).1 s' = some p' := by
+      refine resolve_mono (t' := t) (fun q hq => ?_) s' p' hp
+      exact (isDir_iff _ _).2 (dirCreateAll_keeps t s q _ ((isDir_iff _ _).1 hq))
+    rw [fileRead_of_resolve hr2, fileRead_of_resolve hp]
+    unfold fileReadAt
+    rw [dirCreateAll_find?]
+    by_cases hc : p' ∈ dirCreateAllMakes t s ∧ find? t p' = none
+    · rw [if_pos hc, hc.2]
+    · rw [if_neg hc]
+
+theorem read_unaffected_by_dirCreateAll (t : Tree) (s s' : Str) (hnd' : noDotDot s' = true) :
+    fileRead (dirCreateAll t s).1 s' = fileRead t s' :=
+  read_unaffected_by_dirCreateAll_resolve t s s' (by rw [resolve_eq_components t s' hnd']; simp)
+
+/-- DIRECTORY_REMOVE_ALL leaves every file outside the named directory readable as before (`s'` without
+`..`: with `..` it could pass through a directory that is removed) -/
+theorem read_unaffected_by_dirRemoveAll_outside_resolve (t : Tree) (s s' : Str) (p : Path)
+    (hr : resolve t s = some p) (hroot : p ≠ []) (hnd' : noDotDot s' = true)
+    (h : p.isPrefixOf (components s') = false) :
+    fileRead (dirRemoveAll t s).1 s' = fileRead t s' :=
+  fileRead_congr _ _ _ hnd' (dirRemoveAll_frame_outside_resolve t s p _ hr hroot h)
+
+theorem read_unaffected_by_dirRemoveAll_outside (t : Tree) (s s' : Str) (hnd : noDotDot s = true)
+    (hnd' : noDotDot s' = true) (hroot : components s ≠ [])
+    (h : (components s).isPrefixOf (components s') = false) :
+    fileRead (dirRemoveAll t s).1 s' = fileRead t s' :=
+  read_unaffected_by_dirRemoveAll_outside_resolve t s s' _ (resolve_eq_components t s hnd) hroot hnd' h
+
+end Aplang.Fs
+
+namespace Aplang.Fs
+
+/-! ## removal -/
+
+theorem dirRemoveAll_nonroot_of_success_resolve (t : Tree) (s : Str) (p : Path) (hr : resolve t s = some p)
+    (h : (dirRemoveAll t s).2 = true) : p ≠ [] ∨ resolve (eraseBelow t p) s = none := by
+  rw [dirRemoveAll_on, onResolved_some hr, dirRemoveAllAt_success_iff] at h
+  rcases h.2.2 with h' | h'
+  · exact Or.inr h'
+  · exact Or.inl h'.1
+
+theorem dirRemoveAll_nonroot_of_success (t : Tree) (s : Str) (hnd : noDotDot s = true)
+    (h : (dirRemoveAll t s).2 = true) : components s ≠ [] := by
+  rcases dirRemoveAll_nonroot_of_success_resolve t s _ (resolve_eq_components t s hnd) h with h' | h'
+  · exact h'
+  · rw [resolve_eq_components _ s hnd] at h'; cases h'
+
+theorem fileRemove_success_iff (t : Tree) (s : Str) :
+    (fileRemove t s).2 = true ↔ isFileS t s = true := by
+  rw [fileRemove_on, onResolved_flag, isFileS_iff_resolve]
+  simp only [fileRemoveAt_success_iff, isFileAt_iff]
+
+/-- removal makes no directories -/
+theorem isDir_after_remove_mono (t : Tree) (s : Str) (q : Path) :
+    (isDir (fileRemove t s).1 q = true → isDir t q = true) ∧
+    (isDir (dirRemove t s).1 q = true → isDir t q = true) ∧
+    (isDir (dirRemoveAll t s).1 q = true → isDir t q = true) := by
+  refine ⟨?_, ?_, ?_⟩
+  · rw [fileRemove_on]; unfold onResolved
+    cases resolve t s with
+    | none => exact id
+    | some p =>
+      simp only []; unfold fileRemoveAt
+      split
+      · exact isDir_erase_mono t p q
+      · exact id
+  · rw [dirRemove_on]; unfold onResolved
+    cases resolve t s with
+    | none => exact id
+    | some p =>
+      simp only []; unfold dirRemoveAt
+      split
+      · exact isDir_erase_mono t p q
+      · exact id
+  · rw [dirRemoveAll_on]; unfold onResolved
+    cases resolve t s with
+    | none => exact id
+    | some p =>
+      simp only []; unfold dirRemoveAllAt
+      split
+      · exact id
+      · split
+        · exact isDir_eraseBelow_mono t p q
+        · split
+          · exact isDir_eraseBelow_mono t p q
+          · exact isDir_eraseUnder_mono t p q
+
+theorem existsS_false_of (t' t : Tree) (s : Str) (hmono : ∀ q, isDir t' q = true → isDir t q = true)
+    (h : ∀ p, resolve t s = some p → resolve t' s = some p → find? t' p = none) : existsS t' s = false := by
+  unfold existsS
+  cases hr : resolve t' s with
+  | none => rfl
+  | some p =>
+    simp only []
+    exact existsAt_false_of_absent t' s p (h p (resolve_mono hmono s p hr) hr)
+
+theorem dirRemoveAll_success_iff_resolve (t : Tree) (s : Str) :
+    (dirRemoveAll t s).2 = true ↔
+      ∃ p, resolve t s = some p ∧ s ≠ [] ∧ find? t p = some .dir ∧
+        (resolve (eraseBelow t p) s = none ∨ (p ≠ [] ∧ endsDotDot s = false)) := by
+  rw [dirRemoveAll_on, onResolved_flag]; simp only [dirRemoveAllAt_success_iff]
+
+/-- after a successful FILE_REMOVE / DIRECTORY_REMOVE / DIRECTORY_REMOVE_ALL the path string names nothing;
+the path it resolved to is absent (for DIRECTORY_REMOVE_ALL unless the string went, with `..`, through a
+directory below the one it names: then that one stays, empty, and the string no longer resolves) -/
+theorem remove_then_absent_resolve (t : Tree) (s : Str) :
+    ((fileRemove t s).2 = true →
+      existsS (fileRemove t s).1 s = false ∧ ∀ p, resolve t s = some p → find? (fileRemove t s).1 p = none) ∧
+    ((dirRemove t s).2 = true →
+      existsS (dirRemove t s).1 s = false ∧ ∀ p, resolve t s = some p → find? (dirRemove t s).1 p = none) ∧
+    ((dirRemoveAll t s).2 = true →
+      existsS (dirRemoveAll t s).1 s = false ∧
+        ∀ p, resolve t s = some p → resolve (eraseBelow t p) s ≠ none → find? (dirRemoveAll t s).1 p = none) := by
+  refine ⟨?_, ?_, ?_⟩
+  · intro h
+    have habs : ∀ p, resolve t s = some p → find? (fileRemove t s).1 p = none := by
+      intro p hr
+      rw [fileRemove_on, onResolved_some hr] at h ⊢
+      exact fileRemoveAt_then_absent t s p h
+    exact ⟨existsS_false_of _ t s (fun q => (isDir_after_remove_mono t s q).1) (fun p hp _ => habs p hp), habs⟩
+  · intro h
+    have habs : ∀ p, resolve t s = some p → find? (dirRemove t s).1 p = none := by
+      intro p hr
+      rw [dirRemove_on, onResolved_some hr] at h ⊢
+      exact dirRemoveAt_then_absent t s p h
+    exact ⟨existsS_false_of _ t s (fun q => (isDir_after_remove_mono t s q).2.1) (fun p hp _ => habs p hp), habs⟩
+  · intro h
+    have hmono := fun q => (isDir_after_remove_mono t s q).2.2
+    obtain ⟨p, hr, h1, h2, h3⟩ := (dirRemoveAll_success_iff_resolve t s).1 h
+    have htree : (dirRemoveAll t s).1 =
+        if resolve (eraseBelow t p) s = none then eraseBelow t p else eraseUnder t p := by
+      rw [dirRemoveAll_on, onResolved_some hr]
+      unfold dirRemoveAllAt
+      have hg : (s == [] || !isDir t p) = false := by simp [h1, (isDir_iff t p).2 h2]
+      simp only [hg, Bool.false_eq_true, ↓reduceIte]
+      cases hres : resolve (eraseBelow t p) s with
+      | none => simp
+      | some p' =>
+        rcases h3 with h3 | h3
+        · rw [hres] at h3; cases h3
+        · simp [h3.1, h3.2]
+    have habs : ∀ p', resolve t s = some p' → resolve (eraseBelow t p') s ≠ none →
+        find? (dirRemoveAll t s).1 p' = none := by
+      intro p' hr' hne
+      rw [hr] at hr'; cases hr'
+      have hp : p ≠ [] := by
+        rcases h3 with h3 | h3
+        · exact absurd h3 hne
+        · exact h3.1
+      rw [htree, if_neg hne, find?_eraseUnder]; simp [hp, isPrefixOf_self]
+    refine ⟨?_, habs⟩
+    by_cases hres : resolve (eraseBelow t p) s = none
+    · unfold existsS
+      rw [htree, if_pos hres, hres]
+    · exact existsS_false_of _ t s hmono (fun p' hp' _ => habs p' hp' (by
+        rw [hr] at hp'; cases hp'; exact hres))
+
+/-- after a successful DIRECTORY_REMOVE_ALL on a path string ending in `..` the string no longer resolves:
+the directory the last `..` was taken from has been removed -/
+theorem dirRemoveAll_dotdot_unresolved (t : Tree) (s : Str) (hdd : endsDotDot s = true)
+    (h : (dirRemoveAll t s).2 = true) : resolve (dirRemoveAll t s).1 s = none := by
+  obtain ⟨p, hr, h1, h2, h3⟩ := (dirRemoveAll_success_iff_resolve t s).1 h
+  have hres : resolve (eraseBelow t p) s = none := by
+    rcases h3 with h3 | h3
+    · exact h3
+    · rw [hdd] at h3; cases h3.2
+  rw [dirRemoveAll_on, onResolved_some hr]
+  unfold dirRemoveAllAt
+  have hg : (s == [] || !isDir t p) = false := by simp [h1, (isDir_iff t p).2 h2]
+  simp only [hg, Bool.false_eq_true, ↓reduceIte, hres]
+
+theorem remove_then_absent (t : Tree) (s : Str) (hnd : noDotDot s = true) :
+    ((fileRemove t s).2 = true →
+      find? (fileRemove t s).1 (components s) = none ∧ existsS (fileRemove t s).1 s = false) ∧
+    ((dirRemove t s).2 = true →
+      find? (dirRemove t s).1 (components s) = none ∧ existsS (dirRemove t s).1 s = false) ∧
+    ((dirRemoveAll t s).2 = true →
+      find? (dirRemoveAll t s).1 (components s) = none ∧ existsS (dirRemoveAll t s).1 s = false) := by
+  obtain ⟨h1, h2, h3⟩ := remove_then_absent_resolve t s
+  have hr := resolve_eq_components t s hnd
+  exact ⟨fun h => ⟨(h1 h).2 _ hr, (h1 h).1⟩, fun h => ⟨(h2 h).2 _ hr, (h2 h).1⟩,
+    fun h => ⟨(h3 h).2 _ hr (by rw [resolve_eq_components _ s hnd]; simp), (h3 h).1⟩⟩
+
+theorem dirRemove_success_iff_resolve (t : Tree) (s : Str) :
+    (dirRemove t s).2 = true ↔
+      ∃ p, resolve t s = some p ∧ s ≠ [] ∧ endsDotDot s = false ∧ p ≠ [] ∧ find? t p = some .dir ∧
+        children t p = [] := by
+  rw [dirRemove_on, onResolved_flag]; simp only [dirRemoveAt_success_iff]
+
+theorem dirRemove_success_iff (t : Tree) (s : Str) (hnd : noDotDot s = true) :
+    (dirRemove t s).2 = true ↔
+      s ≠ [] ∧ components s ≠ [] ∧ find? t (components s) = some .dir ∧ children t (components s) = [] := by
+  rw [dirRemove_success_iff_resolve, resolve_eq_components t s hnd, endsDotDot_of_noDotDot hnd]; simp
+
+/-- DIRECTORY_REMOVE removes only an empty directory -/
+theorem dirRemove_only_if_empty_resolve (t : Tree) (s : Str) (h : (dirRemove t s).2 = true) :
+    ∃ p, resolve t s = some p ∧ children t p = [] := by
+  obtain ⟨p, hr, _, _, _, _, hc⟩ := (dirRemove_success_iff_resolve t s).1 h
+  exact ⟨p, hr, hc⟩
+
+theorem dirRemove_only_if_empty (t : Tree) (s : Str) (hnd : noDotDot s = true) (h : (dirRemove t s).2 = true) :
+    children t (components s) = [] := ((dirRemove_success_iff t s hnd).1 h).2.2.2
+
+/-- `DIRECTORY_REMOVE` of a path string ending in `..` fails whatever the tree (Linux: `ENOTEMPTY`) -/
+theorem dirRemove_dotdot_fails (t : Tree) (s : Str) (h : endsDotDot s = true) : dirRemove t s = (t, false) := by
+  rw [dirRemove_on]; unfold onResolved
+  cases resolve t s with
+  | none => rfl
+  | some p => simp [dirRemoveAt, h]
+
+theorem dirRemoveAll_success_iff (t : Tree) (s : Str) (hnd : noDotDot s = true) :
+    (dirRemoveAll t s).2 = true ↔ s ≠ [] ∧ components s ≠ [] ∧ find? t (components s) = some .dir := by
+  rw [dirRemoveAll_success_iff_resolve, resolve_eq_components t s hnd, endsDotDot_of_noDotDot hnd]
+  simp only [Option.some.injEq, exists_eq_left', resolve_eq_components _ s hnd, reduceCtorEq, false_or, and_true]
+  constructor
+  · rintro ⟨h1, h2, h3⟩; exact ⟨h1, h3, h2⟩
+  · rintro ⟨h1, h2, h3⟩; exact ⟨h1, h3, h2⟩
+
+/-- DIRECTORY_CREATE_ALL without `..` fails exactly when some prefix of the path is a file -/
+theorem dirCreateAll_success_iff (t : Tree) (s : Str) (hnd : noDotDot s = true) :
+    (dirCreateAll t s).2 = true ↔ ∀ q ∈ prefixes (components s), isFile t q = false := by
+  rw [dirCreateAll_success_iff_visits, mkdirVisits_eq_prefixes s hnd]
+
+/-- after a successful DIRECTORY_CREATE_ALL every directory it visits is a directory -/
+theorem dirCreateAll_makes_dirs_visits (t : Tree) (s : Str) (h : (dirCreateAll t s).2 = true) :
+    ∀ q ∈ mkdirVisits [] (components s), find? (dirCreateAll t s).1 q = some .dir := by
+  intro q hq
+  have hf := (dirCreateAll_success_iff_visits t s).1 h q hq
+  rw [dirCreateAll_frame_visits t s q h]
+  unfold isFile at hf
+  cases hc : find? t q with
+  | none => simp [hq]
+  | some n => cases n <;> simp_all
+
+theorem dirCreateAll_makes_dirs (t : Tree) (s : Str) (hnd : noDotDot s = true) (h : (dirCreateAll t s).2 = true) :
+    ∀ q ∈ prefixes (components s), find? (dirCreateAll t s).1 q = some .dir := by
+  have := dirCreateAll_makes_dirs_visits t s h
+  rw [mkdirVisits_eq_prefixes s hnd] at this
+  exact this
+
+/-! ## the PATH_* predicates agree with `find?` -/
+
+theorem path_predicates_agree_with_find_resolve (t : Tree) (s : Str) :
+    (existsS t s = true ↔
+      ∃ p, resolve t s = some p ∧ s ≠ [] ∧
+        (if dirOnly s = true then find? t p = some .dir else (find? t p).isSome = true)) ∧
+    (isFileS t s = true ↔
+      ∃ p, resolve t s = some p ∧ s ≠ [] ∧ dirOnly s = false ∧ ∃ c, find? t p = some (.file c)) ∧
+    (isDirS t s = true ↔ ∃ p, resolve t s = some p ∧ s ≠ [] ∧ find? t p = some .dir) := by
+  unfold existsS isFileS isDirS
+  cases hr : resolve t s with
+  | none => simp
+  | some p =>
+    obtain ⟨h1, h2, h3⟩ := predicatesAt_agree_with_find t s p
+    simp [h1, h2, h3]
+
+theorem path_predicates_agree_with_find (t : Tree) (s : Str) (hnd : noDotDot s = true) :
+    (existsS t s = true ↔
+      s ≠ [] ∧ (if trailingSlash s = true then find? t (components s) = some .dir
+                else (find? t (components s)).isSome = true)) ∧
+    (isFileS t s = true ↔ s ≠ [] ∧ trailingSlash s = false ∧ ∃ c, find? t (components s) = some (.file c)) ∧
+    (isDirS t s = true ↔ s ≠ [] ∧ find? t (components s) = some .dir) := by
+  obtain ⟨h1, h2, h3⟩ := path_predicates_agree_with_find_resolve t s
+  rw [h1, h2, h3, resolve_eq_components t s hnd, dirOnly_of_noDotDot hnd]
+  simp
+
+/-- PATH_IS_FILE says TRUE exactly for the paths FILE_READ can read -/
+theorem isFileS_iff_readable (t : Tree) (s : Str) : isFileS t s = true ↔ ∃ c, fileRead t s = some c := by
+  rw [isFileS_iff_resolve]
+  simp only [fileRead_eq_resolve]
+  constructor
+  · rintro ⟨p, hr, h1, h2, c, hc⟩; exact ⟨c, p, hr, h1, h2, hc⟩
+  · rintro ⟨c, p, hr, h1, h2, hc⟩; exact ⟨p, hr, h1, h2, c, hc⟩
+
+/-- the predicates only read: they are determined by the path the string resolves to and `find?` there,
+so (by the frame theorems) an operation on another path that changes no directory on the way does
+not change their answer -/
+theorem path_predicates_congr_resolve (t t' : Tree) (s : Str) (hr : resolve t' s = resolve t s)
+    (h : ∀ p, resolve t s = some p → find? t' p = find? t p) :
+    existsS t' s = existsS t s ∧ isFileS t' s = isFileS t s ∧ isDirS t' s = isDirS t s := by
+  unfold existsS isFileS isDirS
+  rw [hr]
+  cases hp : resolve t s with
+  | none => simp
+  | some p => exact predicatesAt_congr t t' s p (h p hp)
+
+theorem path_predicates_congr (t t' : Tree) (s : Str) (hnd : noDotDot s = true)
+    (h : find? t' (components s) = find? t (components s)) :
+    existsS t' s = existsS t s ∧ isFileS t' s = isFileS t s ∧ isDirS t' s = isDirS t s := by
+  apply path_predicates_congr_resolve
+  · rw [resolve_eq_components t s hnd, resolve_eq_components t' s hnd]
+  · intro p hp
+    rw [resolve_eq_components t s hnd] at hp; cases hp; exact h
+
+/-- DIRECTORY_READ lists exactly the direct children of the directory the string resolves to, each as the
+path string as written joined with the name (`d/../name` for `d/..`) -/
+theorem dirRead_lists_children_resolve (t : Tree) (s : Str) (names : List Str) (h : dirRead t s = some names) :
+    ∃ p, resolve t s = some p ∧ s ≠ [] ∧ find? t p = some .dir ∧
+      names = (children t p).map fun q => (if s.getLast? == some '/' then s else s ++ ['/']) ++ q.getLast?.getD [] := by
+  unfold dirRead at h
+  cases hr : resolve t s with
+  | none => rw [hr] at h; cases h
+  | some p => rw [hr] at h; exact ⟨p, rfl, dirReadAt_lists_children t s p names h⟩
+
+theorem dirRead_lists_children (t : Tree) (s : Str) (names : List Str) (hnd : noDotDot s = true)
+    (h : dirRead t s = some names) :
+    s ≠ [] ∧ find? t (components s) = some .dir ∧ names.length = (children t (components s)).length := by
+  obtain ⟨p, hr, h1, h2, h3⟩ := dirRead_lists_children_resolve t s names h
+  rw [resolve_eq_components t s hnd] at hr; cases hr
+  exact ⟨h1, h2, by rw [h3]; simp⟩
 
 /-! ## well-formedness: no path occurs twice -/
+
+theorem onResolved_noDup (t : Tree) (s : Str) (k : Path → Tree × Bool) (h : NoDupPaths t)
+    (hk : ∀ p, NoDupPaths (k p).1) : NoDupPaths (onResolved t s k).1 := by
+  unfold onResolved
+  cases resolve t s with
+  | none => exact h
+  | some p => exact hk p
 
 theorem noDup_preserved (t : Tree) (s text : Str) (h : NoDupPaths t) :
     NoDupPaths (fileCreate t s).1 ∧ NoDupPaths (fileRemove t s).1 ∧ NoDupPaths (fileAppend t s text).1 ∧
     NoDupPaths (fileOverwrite t s text).1 ∧ NoDupPaths (dirCreate t s).1 ∧ NoDupPaths (dirCreateAll t s).1 ∧
     NoDupPaths (dirRemove t s).1 ∧ NoDupPaths (dirRemoveAll t s).1 := by
   refine ⟨?_, ?_, ?_, ?_, ?_, ?_, ?_, ?_⟩
-  · unfold fileCreate; simp only []; split
+  · rw [fileCreate_on]; refine onResolved_noDup t s _ h fun p => ?_
+    unfold fileCreateAt; split
     · exact h
     · exact noDup_put _ _ _ h
-  · unfold fileRemove; simp only []; split
+  · rw [fileRemove_on]; refine onResolved_noDup t s _ h fun p => ?_
+    unfold fileRemoveAt; split
     · exact noDup_erase _ _ h
     · exact h
-  · unfold fileAppend; simp only []; split
+  · rw [fileAppend_on]; refine onResolved_noDup t s _ h fun p => ?_
+    unfold fileAppendAt; split
     · exact h
     · split
       · exact noDup_put _ _ _ h
       · exact h
-  · unfold fileOverwrite; simp only []; split
+  · rw [fileOverwrite_on]; refine onResolved_noDup t s _ h fun p => ?_
+    unfold fileOverwriteAt; split
     · exact h
     · split
       · exact noDup_put _ _ _ h
       · exact h
-  · unfold dirCreate; simp only []; split
+  · rw [dirCreate_on]; refine onResolved_noDup t s _ h fun p => ?_
+    unfold dirCreateAt; split
     · exact h
     · exact noDup_put _ _ _ h
-  · rw [dirCreateAll_eq]; split
-    · exact h
-    · exact noDup_foldl_mkdir _ _ h
-  · unfold dirRemove; simp only []; split
+  · rw [dirCreateAll_fst]; exact noDup_foldl_mkdir _ _ h
+  · rw [dirRemove_on]; refine onResolved_noDup t s _ h fun p => ?_
+    unfold dirRemoveAt; split
     · exact noDup_erase _ _ h
     · exact h
-  · unfold dirRemoveAll; simp only []; split
-    · exact noDup_eraseUnder _ _ h
+  · rw [dirRemoveAll_on]; refine onResolved_noDup t s _ h fun p => ?_
+    unfold dirRemoveAllAt; split
+    · exact h
     · split
-      · simp [NoDupPaths]
-      · exact h
+      · exact noDup_eraseBelow _ _ h
+      · split
+        · exact noDup_eraseBelow _ _ h
+        · exact noDup_eraseUnder _ _ h
 
 end Aplang.Fs
+
+namespace Aplang.Fs
+
+/-! ## `..` -/
+
+/-- the path string `d/..` -/
+def up (d : Str) : Str := d ++ '/' :: dotdot
+
+theorem components_up (d : Str) : components (up d) = components d ++ [dotdot] := by
+  unfold up
+  rw [components_append_slash]
+  rfl
+
+/-- `d/..` with `d` an existing directory names the parent of `d` (the root is its own parent) -/
+theorem resolve_dotdot_parent (t : Tree) (d : Str) (p : Path) (hr : resolve t d = some p)
+    (hd : isDir t p = true) : resolve t (up d) = some (parent p) := by
+  unfold resolve at *
+  rw [components_up, resolveFrom_append, hr]
+  simp [resolveFrom, hd]
+
+/-- `d/../x` with `d` an existing directory: `x` read from the parent of `d` -/
+theorem resolve_upFrom (t : Tree) (d x : Str) (p : Path) (hr : resolve t d = some p) (hd : isDir t p = true) :
+    resolve t (upFrom d x) = resolveFrom t (parent p) (components x) := by
+  unfold resolve at *
+  rw [components_upFrom, resolveFrom_append, hr]
+  simp [resolveFrom, hd]
+
+/-- `..` needs a directory to be taken from: when `d` does not resolve, or resolves to a missing name or to
+a file, neither `d/..` nor any `d/../x` resolves (Linux: `ENOENT` / `ENOTDIR`) -/
+theorem resolve_dotdot_needs_directory (t : Tree) (d : Str)
+    (hd : ∀ p, resolve t d = some p → isDir t p = false) (x : Str) :
+    resolve t (up d) = none ∧ resolve t (upFrom d x) = none := by
+  unfold resolve at *
+  rw [components_up, components_upFrom, resolveFrom_append, resolveFrom_append]
+  cases hr : resolveFrom t [] (components d) with
+  | none => exact ⟨rfl, rfl⟩
+  | some p => simp [resolveFrom, hd p hr]
+
+/-- through a missing name -/
+theorem resolve_dotdot_through_missing (t : Tree) (d : Str) (p : Path) (hr : resolve t d = some p)
+    (hm : find? t p = none) (x : Str) : resolve t (up d) = none ∧ resolve t (upFrom d x) = none :=
+  resolve_dotdot_needs_directory t d (fun p' hp' => by
+    rw [hr] at hp'; cases hp'; exact not_isDir_of_absent hm) x
+
+/-- through a file -/
+theorem resolve_dotdot_through_file (t : Tree) (d : Str) (p : Path) (c : Str) (hr : resolve t d = some p)
+    (hf : find? t p = some (.file c)) (x : Str) : resolve t (up d) = none ∧ resolve t (upFrom d x) = none :=
+  resolve_dotdot_needs_directory t d (fun p' hp' => by
+    rw [hr] at hp'; cases hp'; exact not_isDir_of_file hf) x
+
+/-- … and then every operation on `d/../x` reports failure by value — FALSE / NULL — and leaves the tree
+as it was (`DIRECTORY_CREATE_ALL` is the one that does not go through `resolve`: it makes what it misses) -/
+theorem dotdot_through_nondirectory_fails (t : Tree) (d : Str)
+    (hd : ∀ p, resolve t d = some p → isDir t p = false) (x text : Str) :
+    existsS t (upFrom d x) = false ∧ isFileS t (upFrom d x) = false ∧ isDirS t (upFrom d x) = false ∧
+    fileCreate t (upFrom d x) = (t, false) ∧ fileRemove t (upFrom d x) = (t, false) ∧
+    fileRead t (upFrom d x) = none ∧
+    fileAppend t (upFrom d x) text = (t, false) ∧ fileOverwrite t (upFrom d x) text = (t, false) ∧
+    dirCreate t (upFrom d x) = (t, false) ∧ dirRemove t (upFrom d x) = (t, false) ∧
+    dirRemoveAll t (upFrom d x) = (t, false) ∧ dirRead t (upFrom d x) = none :=
+  unresolved_fails t _ (resolve_dotdot_needs_directory t d hd x).2 text
+
+/-! ### two path strings that name the same thing -/
+
+/-- what an operation looks at in a path string: what it resolves to, whether it is empty, whether it can
+only name a directory, whether it ends in `..` (DIRECTORY_REMOVE_ALL, which resolves the string a second
+time in a smaller tree, aside: `dirRemoveAll_congr`) -/
+structure SameName (t : Tree) (s s' : Str) : Prop where
+  res : resolve t s = resolve t s'
+  empty : s = [] ↔ s' = []
+  ends : endsDotDot s = endsDotDot s'
+  slash : trailingSlash s = trailingSlash s'
+
+theorem SameName.dirOnly {t : Tree} {s s' : Str} (h : SameName t s s') : dirOnly s = dirOnly s' := by
+  unfold Fs.dirOnly; rw [h.slash, h.ends]
+
+/-- operations on two path strings that name the same thing are the same operation -/
+theorem ops_congr (t : Tree) (s s' : Str) (h : SameName t s s') (text : Str) :
+    existsS t s = existsS t s' ∧ isFileS t s = isFileS t s' ∧ isDirS t s = isDirS t s' ∧
+    fileCreate t s = fileCreate t s' ∧ fileRemove t s = fileRemove t s' ∧ fileRead t s = fileRead t s' ∧
+    fileAppend t s text = fileAppend t s' text ∧ fileOverwrite t s text = fileOverwrite t s' text ∧
+    dirCreate t s = dirCreate t s' ∧ dirRemove t s = dirRemove t s' ∧
+    (dirRead t s).map List.length = (dirRead t s').map List.length := by
+  have he : (s == []) = (s' == []) := by
+    have := h.empty
+    cases s <;> cases s' <;> simp_all
+  have hne : (s != []) = (s' != []) := by unfold bne; rw [he]
+  have hd := h.dirOnly
+  unfold existsS isFileS isDirS fileCreate fileRemove fileRead fileAppend fileOverwrite dirCreate dirRemove
+    dirRead
+  rw [h.res]
+  cases resolve t s' with
+  | none => simp
+  | some p =>
+    simp only []
+    unfold existsAt isFileAt isDirAt fileCreateAt fileRemoveAt fileReadAt fileAppendAt fileOverwriteAt dirCreateAt
+      dirRemoveAt dirReadAt
+    rw [he, hne, hd, h.ends]
+    refine ⟨rfl, rfl, rfl, rfl, rfl, rfl, rfl, rfl, rfl, rfl, ?_⟩
+    simp only []
+    split <;> simp
+
+/-- DIRECTORY_REMOVE_ALL resolves the string again once everything below the directory is removed: two
+strings that name the same thing, and still both do or both do not after that, are removed alike -/
+theorem dirRemoveAll_congr (t : Tree) (s s' : Str) (h : SameName t s s')
+    (hafter : ∀ p, resolve t s' = some p →
+      (resolve (eraseBelow t p) s).isNone = (resolve (eraseBelow t p) s').isNone) :
+    dirRemoveAll t s = dirRemoveAll t s' := by
+  have he : (s == []) = (s' == []) := by
+    have := h.empty
+    cases s <;> cases s' <;> simp_all
+  unfold dirRemoveAll
+  rw [h.res]
+  cases hr : resolve t s' with
+  | none => rfl
+  | some p =>
+    simp only []
+    unfold dirRemoveAllAt
+    rw [he, h.ends]
+    split
+    · rfl
+    · have := hafter p hr
+      cases h1 : resolve (eraseBelow t p) s <;> cases h2 : resolve (eraseBelow t p) s' <;> simp_all
+
+theorem ne_nil_of_components_ne_nil {x : Str} (h : components x ≠ []) : x ≠ [] := by
+  intro e; subst e; exact h rfl
+
+theorem upFrom_getLast? (d x : Str) (hx : x ≠ []) : (upFrom d x).getLast? = x.getLast? := by
+  unfold upFrom
+  have : d ++ '/' :: (dotdot ++ '/' :: x) = (d ++ '/' :: (dotdot ++ ['/'])) ++ x := by simp
+  rw [this, List.getLast?_append]
+  cases hl : x.getLast? with
+  | none => exact absurd (List.getLast?_eq_none_iff.1 hl) hx
+  | some c => rfl
+
+theorem getLast?_append_cons_of_ne_nil {α} (a : List α) (b : α) (c : List α) (hc : c ≠ []) :
+    (a ++ b :: c).getLast? = c.getLast? := by
+  have : a ++ b :: c = (a ++ [b]) ++ c := by simp
+  rw [this, List.getLast?_append]
+  cases hl : c.getLast? with
+  | none => exact absurd (List.getLast?_eq_none_iff.1 hl) hc
+  | some x => rfl
+
+/-- `d/../x` and `x` name the same thing when `d` is an existing directory directly below the root
+(and `x` has a component at all) -/
+theorem sameName_upFrom (t : Tree) (d x : Str) (p : Path) (hr : resolve t d = some p) (hd : isDir t p = true)
+    (hpar : parent p = []) (hx : components x ≠ []) : SameName t (upFrom d x) x := by
+  have hxne := ne_nil_of_components_ne_nil hx
+  have hres : ∀ cs, resolveFrom t [] (components d ++ dotdot :: cs) = resolveFrom t [] cs := by
+    intro cs
+    unfold resolve at hr
+    rw [resolveFrom_append, hr]
+    simp [resolveFrom, hd, hpar]
+  have hends : endsDotDot (upFrom d x) = endsDotDot x := by
+    unfold endsDotDot
+    rw [components_upFrom, getLast?_append_cons_of_ne_nil _ _ _ hx]
+  refine ⟨?_, ?_, hends, ?_⟩
+  · unfold resolve; rw [components_upFrom]; exact hres _
+  · constructor
+    · intro e; unfold upFrom at e; simp at e
+    · intro e; exact absurd e hxne
+  · unfold trailingSlash; rw [upFrom_getLast? d x hxne]
+
+/-- **round trip through an existing directory**: for a directory `d` directly below the root, every
+operation on `d/../x` is the operation on `x` (DIRECTORY_READ lists the same entries, each printed with
+the path string as written: `d/../x/name`). DIRECTORY_CREATE_ALL and DIRECTORY_REMOVE_ALL, which look at
+the string more than once: `dotdot_roundtrip_createAll`, `dotdot_roundtrip_removeAll`. -/
+theorem dotdot_roundtrip (t : Tree) (d x : Str) (p : Path) (hr : resolve t d = some p) (hd : isDir t p = true)
+    (hpar : parent p = []) (hx : components x ≠ []) (text : Str) :
+    existsS t (upFrom d x) = existsS t x ∧ isFileS t (upFrom d x) = isFileS t x ∧
+    isDirS t (upFrom d x) = isDirS t x ∧
+    fileCreate t (upFrom d x) = fileCreate t x ∧ fileRemove t (upFrom d x) = fileRemove t x ∧
+    fileRead t (upFrom d x) = fileRead t x ∧
+    fileAppend t (upFrom d x) text = fileAppend t x text ∧
+    fileOverwrite t (upFrom d x) text = fileOverwrite t x text ∧
+    dirCreate t (upFrom d x) = dirCreate t x ∧ dirRemove t (upFrom d x) = dirRemove t x ∧
+    dirRead t (upFrom d x) = (dirRead t x).map (List.map (upFrom d)) := by
+  have hs := sameName_upFrom t d x p hr hd hpar hx
+  obtain ⟨h1, h2, h3, h4, h5, h6, h7, h8, h9, h10, _⟩ := ops_congr t _ _ hs text
+  refine ⟨h1, h2, h3, h4, h5, h6, h7, h8, h9, h10, ?_⟩
+  have hxne := ne_nil_of_components_ne_nil hx
+  unfold dirRead
+  rw [hs.res]
+  cases resolve t x with
+  | none => rfl
+  | some q =>
+    simp only []
+    unfold dirReadAt
+    have he : (upFrom d x == []) = false := by
+      have := hs.empty
+      simp [hxne] at this ⊢
+      exact this
+    have hxe : (x == []) = false := by simp [hxne]
+    rw [he, hxe, upFrom_getLast? d x hxne]
+    simp only [Bool.false_or]
+    split
+    · rfl
+    · simp only [Option.map_some, Option.some.injEq, List.map_map]
+      apply List.map_congr_left
+      intro c _
+      simp only [Function.comp]
+      split <;> simp [upFrom]
+
+/-- `DIRECTORY_CREATE_ALL` round trip: `d` a single name that is an existing directory -/
+theorem dotdot_roundtrip_createAll (t : Tree) (d x : Str) (c : Str) (hc : components d = [c]) (hcd : c ≠ dotdot)
+    (hd : isDir t [c] = true) : dirCreateAll t (upFrom d x) = dirCreateAll t x := by
+  have hvis : mkdirVisits [] (components (upFrom d x)) = [c] :: mkdirVisits [] (components x) := by
+    rw [components_upFrom, hc]
+    have h1 : (c == dotdot) = false := by simpa using hcd
+    simp [mkdirVisits, h1, parent]
+  have hnf : isFile t [c] = false := by
+    have := (isDir_iff t [c]).1 hd
+    unfold isFile; rw [this]
+  have hstep : mkdirStep t [c] = t := by
+    unfold mkdirStep pathExists
+    rw [(isDir_iff t [c]).1 hd]; rfl
+  unfold dirCreateAll
+  simp only [hvis, List.find?_cons, hnf]
+  cases List.find? (fun q => isFile t q) (mkdirVisits [] (components x)) with
+  | none => simp only [List.foldl_cons, hstep]
+  | some f =>
+    simp only [List.takeWhile_cons, hnf, Bool.not_false, ↓reduceIte, List.filter_cons]
+    split
+    · simp only [List.foldl_cons, hstep]
+    · rfl
+
+theorem resolve_single (t : Tree) (d : Str) (c : Str) (hc : components d = [c]) (hcd : c ≠ dotdot) :
+    resolve t d = some [c] := by
+  have h1 : (c == dotdot) = false := by simpa using hcd
+  unfold resolve; rw [hc]; simp [resolveFrom, h1]
+
+/-- `DIRECTORY_REMOVE_ALL` round trip: `d` a single name that is an existing directory, `x` a string that
+does not name the root (`DIRECTORY_REMOVE_ALL("d/../k/..")`, which names the root, succeeds — `d` has gone
+when the string is resolved again — where `DIRECTORY_REMOVE_ALL("k/..")` does too, but `".."` alone does not) -/
+theorem dotdot_roundtrip_removeAll (t : Tree) (d x : Str) (c : Str) (hc : components d = [c]) (hcd : c ≠ dotdot)
+    (hd : isDir t [c] = true) (hx : components x ≠ []) (hroot : resolve t x ≠ some []) :
+    dirRemoveAll t (upFrom d x) = dirRemoveAll t x := by
+  have hs := sameName_upFrom t d x [c] (resolve_single t d c hc hcd) hd rfl hx
+  apply dirRemoveAll_congr t _ _ hs
+  intro p hp
+  have hpne : p ≠ [] := fun e => hroot (by rw [hp, e])
+  have hkeep : isDir (eraseBelow t p) [c] = true := by
+    rw [isDir_iff, find?_eraseBelow]
+    have : ¬ (p.isPrefixOf [c] = true ∧ [c] ≠ p) := by
+      rintro ⟨h1, h2⟩
+      cases p with
+      | nil => exact hpne rfl
+      | cons a as =>
+        cases as with
+        | nil => simp [List.isPrefixOf] at h1; exact h2 (by rw [h1])
+        | cons b bs => simp [List.isPrefixOf] at h1
+    simp only [this, ↓reduceIte]
+    simpa using (isDir_iff t [c]).1 hd
+  rw [resolve_upFrom (eraseBelow t p) d x [c] (resolve_single _ d c hc hcd) hkeep]
+  rfl
+
+end Aplang.Fs
+
 
 namespace Aplang
 
@@ -750,6 +1941,39 @@ theorem failure_by_value (env : CharEnv) (n : Native) (hn : n ∈ fsNatives) (p 
   · exact ⟨_, _, native_directoryRemove env p s1 σ, trivial, FsOnlyChange.withFs _ _ _⟩
   · exact ⟨_, _, native_directoryRemoveAll env p s1 σ, trivial, FsOnlyChange.withFs _ _ _⟩
 
+/-- a path string that does not resolve (`..` taken from a missing name or from a file): every FS procedure
+that goes through `resolve` — all but DIRECTORY_CREATE_ALL — returns FALSE (NULL for FILE_READ and
+DIRECTORY_READ), and the state is the one before the call -/
+theorem unresolved_path_fails_by_value (env : CharEnv) (p : Str) (s1 s2 : Span) (σ : St) (v : Value) (text : Str)
+    (hd : display σ v = .ok text) (hr : Fs.resolve σ.world.fs p = none) :
+    callNative env .pathExists [.str p] [s1] σ = .ok (.bool false, σ) ∧
+    callNative env .pathIsFile [.str p] [s1] σ = .ok (.bool false, σ) ∧
+    callNative env .pathIsDirectory [.str p] [s1] σ = .ok (.bool false, σ) ∧
+    callNative env .fileRemove [.str p] [s1] σ = .ok (.bool false, σ) ∧
+    callNative env .fileCreate [.str p] [s1] σ = .ok (.bool false, σ) ∧
+    callNative env .fileRead [.str p] [s1] σ = .ok (.null, σ) ∧
+    callNative env .fileAppend [.str p, v] [s1, s2] σ = .ok (.bool false, σ) ∧
+    callNative env .fileOverwrite [.str p, v] [s1, s2] σ = .ok (.bool false, σ) ∧
+    callNative env .directoryRead [.str p] [s1] σ = .ok (.null, σ) ∧
+    callNative env .directoryCreate [.str p] [s1] σ = .ok (.bool false, σ) ∧
+    callNative env .directoryRemove [.str p] [s1] σ = .ok (.bool false, σ) ∧
+    callNative env .directoryRemoveAll [.str p] [s1] σ = .ok (.bool false, σ) := by
+  obtain ⟨h1, h2, h3, h4, h5, h6, h7, h8, h9, h10, h11, h12⟩ := Fs.unresolved_fails σ.world.fs p hr text
+  have hσ : σ.withFs σ.world.fs = σ := rfl
+  refine ⟨?_, ?_, ?_, ?_, ?_, ?_, ?_, ?_, ?_, ?_, ?_, ?_⟩
+  · rw [native_pathExists, h1]
+  · rw [native_pathIsFile, h2]
+  · rw [native_pathIsDirectory, h3]
+  · rw [native_fileRemove, h5, hσ]
+  · rw [native_fileCreate, h4, hσ]
+  · rw [native_fileRead, h6]
+  · rw [native_fileAppend env p s1 s2 σ v text hd, h7, hσ]
+  · rw [native_fileOverwrite env p s1 s2 σ v text hd, h8, hσ]
+  · rw [native_directoryRead, h12]
+  · rw [native_directoryCreate, h9, hσ]
+  · rw [native_directoryRemove, h10, hσ]
+  · rw [native_directoryRemoveAll, h11, hσ]
+
 /-- a path argument that is not a string is a runtime error at that argument (never a panic), and the
 state is the one before the call -/
 theorem nonstring_path_is_runtime_error (env : CharEnv) (n : Native) (hn : n ∈ fsNatives) (a : Value)
@@ -822,7 +2046,10 @@ theorem fs_sequence_never_terminates (env : CharEnv) (cs : List FsCall) (σ : St
       · exact ⟨heap2, by rw [hσ2, hσ1]⟩
       · exact ⟨cell :: heap2, by rw [hσ2, hσ1]; simp⟩
 
-/-! ## the hypotheses are satisfiable: a small tree -/
+/-! ## the hypotheses are satisfiable: small trees, kernel-checked
+
+`demoTree2` is the tree of the Linux run the `..` cases were read off from (Rust 1.95, `std::fs` on ext4):
+the examples marked *(run)* reproduce the outcome observed there. -/
 
 namespace Fs
 /-- `d/` (a directory) and `d/f` (a file containing `hi`) -/
@@ -842,10 +2069,116 @@ example : (dirCreateAll demoTree ['d', '/', 'a', '/', 'b']).2 = true ∧
     isDirS (dirCreateAll demoTree ['d', '/', 'a', '/', 'b']).1 ['d', '/', 'a', '/', 'b'] = true := by decide
 example : NoDupPaths demoTree := by simp [NoDupPaths, demoTree]
 example : dirRemoveAll demoTree ['.'] = ([], false) := by rfl
+
+namespace Demo
+
+/-- `d/`, `d/e/`, `d/f` = `hi`, `g` = `gg`, `k/` -/
+def demoTree2 : Tree :=
+  [([['d']], .dir), ([['d'], ['e']], .dir), ([['d'], ['f']], .file ['h', 'i']), ([['g']], .file ['g', 'g']),
+   ([['k']], .dir)]
+
+/-- the paths of a tree, in the order of the association list -/
+def paths (t : Tree) : List Str := t.map fun e => StrOps.join e.1 ['/']
+
+/-! resolution -/
+example : resolve demoTree2 "d/..".toList = some [] := by decide
+example : resolve demoTree2 "d/e/..".toList = some [['d']] := by decide
+example : resolve demoTree2 "d/e/../f".toList = some [['d'], ['f']] := by decide
+example : resolve demoTree2 "d/e/../../g".toList = some [['g']] := by decide
+example : resolve demoTree2 "d/./..".toList = some [] := by decide
+example : resolve demoTree2 "missing/../g".toList = none := by decide
+example : resolve demoTree2 "g/../g".toList = none := by decide
+example : resolve demoTree2 "d/f/../f".toList = none := by decide
+/-- the simplification: `..` at the root is the root -/
+example : resolve demoTree2 "../g".toList = some [['g']] := by decide
+example : noDotDot "d/e/f".toList = true ∧ noDotDot "d/../f".toList = false ∧ noDotDot "d/..x/f".toList = true := by
+  decide
+
+/-! `d/..` names the root, a directory *(run)* -/
+example : existsS demoTree2 "d/..".toList = true ∧ isFileS demoTree2 "d/..".toList = false ∧
+    isDirS demoTree2 "d/..".toList = true := by decide
+example : (fileRemove demoTree2 "d/..".toList).2 = false ∧ (fileCreate demoTree2 "d/..".toList).2 = false ∧
+    fileRead demoTree2 "d/..".toList = none ∧ (fileAppend demoTree2 "d/..".toList ['X']).2 = false ∧
+    (fileOverwrite demoTree2 "d/..".toList ['X']).2 = false ∧ (dirCreate demoTree2 "d/..".toList).2 = false ∧
+    (dirRemove demoTree2 "d/..".toList).2 = false := by decide
+example : dirRead demoTree2 "d/..".toList = some ["d/../d".toList, "d/../g".toList, "d/../k".toList] := by decide
+example : dirRead demoTree2 "d/e/..".toList = some ["d/e/../e".toList, "d/e/../f".toList] := by decide
+example : dirRead demoTree2 "d/../".toList = some ["d/../d".toList, "d/../g".toList, "d/../k".toList] := by decide
+example : (dirCreateAll demoTree2 "d/..".toList).2 = true ∧
+    paths (dirCreateAll demoTree2 "d/..".toList).1 = paths demoTree2 := by decide
+/-- `remove_dir_all("d/..")` empties the sandbox and reports success *(run)* -/
+example : (dirRemoveAll demoTree2 "d/..".toList).2 = true ∧ paths (dirRemoveAll demoTree2 "d/..".toList).1 = [] := by
+  decide
+/-- `remove_dir_all("d/e/..")` empties `d`, keeps it, and reports success *(run)* -/
+example : (dirRemoveAll demoTree2 "d/e/..".toList).2 = true ∧
+    paths (dirRemoveAll demoTree2 "d/e/..".toList).1 = ["d".toList, "g".toList, "k".toList] := by decide
+/-- the string is resolved again for the final `rmdir`: `d/e/../../d` went through `d/e`, which is gone by
+then — success, and `d` stays, empty *(run)*; `d/../d` does not go through anything below `d`: `d` is removed -/
+example : (dirRemoveAll demoTree2 "d/e/../../d".toList).2 = true ∧
+    paths (dirRemoveAll demoTree2 "d/e/../../d".toList).1 = ["d".toList, "g".toList, "k".toList] ∧
+    (dirRemoveAll demoTree2 "d/../d".toList).2 = true ∧
+    paths (dirRemoveAll demoTree2 "d/../d".toList).1 = ["g".toList, "k".toList] := by decide
+/-- `..` at the root itself, and `"."`: emptied, failure (the first is the simplification) -/
+example : (dirRemoveAll demoTree2 "..".toList).2 = false ∧ paths (dirRemoveAll demoTree2 "..".toList).1 = [] ∧
+    (dirRemoveAll demoTree2 ".".toList).2 = false ∧ paths (dirRemoveAll demoTree2 ".".toList).1 = [] := by decide
+
+/-! `d/../g` is `g` *(run)* -/
+example : fileRead demoTree2 "d/../g".toList = some ['g', 'g'] ∧ isFileS demoTree2 "d/../g".toList = true ∧
+    (fileCreate demoTree2 "d/../g".toList).2 = false ∧ dirRead demoTree2 "d/../g".toList = none := by decide
+example : (fileRemove demoTree2 "d/../g".toList).2 = true ∧
+    paths (fileRemove demoTree2 "d/../g".toList).1 = ["d".toList, "d/e".toList, "d/f".toList, "k".toList] := by decide
+example : fileRead (fileAppend demoTree2 "d/../g".toList ['X']).1 "g".toList = some ['g', 'g', 'X'] ∧
+    fileRead (fileOverwrite demoTree2 "d/e/../../g".toList ['X']).1 "g".toList = some ['X'] := by decide
+example : (fileCreate demoTree2 "d/../new".toList).2 = true ∧
+    fileRead (fileCreate demoTree2 "d/../new".toList).1 "new".toList = some [] := by decide
+example : (dirCreate demoTree2 "d/../new".toList).2 = true ∧
+    isDirS (dirCreate demoTree2 "d/../new".toList).1 "new".toList = true := by decide
+example : (dirRemove demoTree2 "d/../k".toList).2 = true ∧ (dirRemoveAll demoTree2 "d/../k".toList).2 = true ∧
+    existsS (dirRemove demoTree2 "d/../k".toList).1 "k".toList = false := by decide
+example : (dirRemove demoTree2 "d/../k/..".toList).2 = false ∧ (dirRemoveAll demoTree2 "d/../k/..".toList).2 = true ∧
+    paths (dirRemoveAll demoTree2 "d/../k/..".toList).1 = [] := by decide
+
+/-! `..` through a missing name or a file: failure by value, tree unchanged *(run)* -/
+example : existsS demoTree2 "missing/../g".toList = false ∧ fileRead demoTree2 "missing/../g".toList = none ∧
+    (fileCreate demoTree2 "missing/../new".toList).2 = false ∧ (dirCreate demoTree2 "missing/../new".toList).2 = false ∧
+    (fileRemove demoTree2 "g/../g".toList).2 = false ∧ fileRead demoTree2 "d/f/../f".toList = none ∧
+    (dirRemoveAll demoTree2 "g/../g".toList).2 = false ∧ dirRead demoTree2 "missing/../d".toList = none := by decide
+
+/-! `DIRECTORY_CREATE_ALL` makes what it misses *(run)* -/
+example : (dirCreateAll demoTree2 "missing/../new".toList).2 = true ∧
+    isDirS (dirCreateAll demoTree2 "missing/../new".toList).1 "missing".toList = true ∧
+    isDirS (dirCreateAll demoTree2 "missing/../new".toList).1 "new".toList = true := by decide
+example : (dirCreateAll demoTree2 "a/b/../../c/..".toList).2 = true ∧
+    paths (dirCreateAll demoTree2 "a/b/../../c/..".toList).1 =
+      ["c".toList, "a/b".toList, "a".toList] ++ paths demoTree2 := by decide
+/-- a failing DIRECTORY_CREATE_ALL with `..` keeps what it made before it met the file *(run:
+`create_dir_all("missing/../g")` → error, `missing/` exists afterwards)* -/
+theorem createAll_partial : (dirCreateAll demoTree2 "missing/../g".toList).2 = false ∧
+    isDirS (dirCreateAll demoTree2 "missing/../g".toList).1 "missing".toList = true := by decide
+example : (dirCreateAll demoTree2 "k/new/../../g/y".toList).2 = false ∧
+    paths (dirCreateAll demoTree2 "k/new/../../g/y".toList).1 = "k/new".toList :: paths demoTree2 := by decide
+example : (dirCreateAll demoTree2 "g/../x".toList).2 = false ∧
+    paths (dirCreateAll demoTree2 "g/../x".toList).1 = paths demoTree2 := by decide
+/-- a path string that did not resolve can resolve after DIRECTORY_CREATE_ALL -/
+example : fileRead demoTree2 "new/../g".toList = none ∧
+    fileRead (dirCreateAll demoTree2 "new".toList).1 "new/../g".toList = some ['g', 'g'] := by decide
+
+/-! the round trip theorem applies: `d` is a directory directly below the root -/
+example : fileRead demoTree2 (upFrom "d".toList "g".toList) = fileRead demoTree2 "g".toList :=
+  (dotdot_roundtrip demoTree2 "d".toList "g".toList [['d']] (by decide) (by decide) (by decide) (by decide) []).2.2.2.2.2.1
+example : upFrom "d".toList "g".toList = "d/../g".toList := by decide
+
+end Demo
 end Fs
 
 example : (⟨.fileAppend, ['d', '/', 'f'], [.num 1.0], [(0, 1), (2, 1)]⟩ : FsCall).WellFormed := by
   refine ⟨by decide, by decide, by decide, ?_⟩
   intro v hv a; simp at hv; subst hv; simp
+
+/-- DIRECTORY_READ through `..` in the interpreter's state: NULL when the path does not resolve -/
+example (env : CharEnv) (σ : St) (h : σ.world.fs = Fs.Demo.demoTree2) :
+    callNative env .fileRead [.str "g/../g".toList] [(0, 1)] σ = .ok (.null, σ) :=
+  (unresolved_path_fails_by_value env _ (0, 1) (0, 1) σ .null "NULL".toList (by simp [display, displayV])
+    (by rw [h]; decide)).2.2.2.2.2.1
 
 end Aplang
